@@ -1,154 +1,26 @@
 (* C05/ProofsHeap.v - the simulation relation between the code-level heap (cells, registries,
-   VM return cells, records) and the specification's store (alive set, result map, records
-   naming calls), and its preservation by every host / thread operation. *)
+   VM return cells, variables local.r, stack temporaries, records) and the specification's store
+   (alive set, result map with forwarding, records naming threads), and its preservation by
+   every host / thread operation. *)
 From Coq Require Import NArith List Bool Lia.
-From Morfuse Require Import Base.Arr Base.ListX C05.Model C05.Spec C05.ProofsCells.
+From Morfuse Require Import Base.Arr Base.ListX C05.Model C05.Spec C05.ProofsCells C05.ProofsLib.
 Import ListNotations.
 Local Open Scope N_scope.
 
-(* ---- association lists ------------------------------------------------------------------ *)
-Section Assoc.
-  Context {A B : Type} (P : N * A -> N * B -> Prop).
-  Hypothesis Pkey : forall x y, P x y -> fst x = fst y.
-
-  Lemma F2_lookup_some l sl r x : Forall2 P l sl -> lookup r l = Some x ->
-    exists y, lookup r sl = Some y /\ P (r, x) (r, y).
-  Proof.
-    induction 1 as [|[k a] [k' b] l sl Hp Hf IH]; cbn; [discriminate|].
-    pose proof (Pkey _ _ Hp) as E. cbn in E. subst k'.
-    destruct (N.eqb_spec k r) as [->|Hn].
-    - intro H. injection H as <-. exists b. split; [reflexivity|exact Hp].
-    - exact IH.
-  Qed.
-
-  Lemma F2_lookup_none l sl r : Forall2 P l sl -> lookup r l = None -> lookup r sl = None.
-  Proof.
-    induction 1 as [|[k a] [k' b] l sl Hp Hf IH]; cbn; [reflexivity|].
-    pose proof (Pkey _ _ Hp) as E. cbn in E. subst k'.
-    destruct (N.eqb_spec k r); [discriminate|exact IH].
-  Qed.
-
-  Lemma F2_lookup_some_r l sl r y : Forall2 P l sl -> lookup r sl = Some y ->
-    exists x, lookup r l = Some x /\ P (r, x) (r, y).
-  Proof.
-    induction 1 as [|[k a] [k' b] l sl Hp Hf IH]; cbn; [discriminate|].
-    pose proof (Pkey _ _ Hp) as E. cbn in E. subst k'.
-    destruct (N.eqb_spec k r) as [->|Hn].
-    - intro H. injection H as <-. exists a. split; [reflexivity|exact Hp].
-    - exact IH.
-  Qed.
-
-  Lemma F2_del l sl r : Forall2 P l sl -> Forall2 P (del r l) (del r sl).
-  Proof.
-    induction 1 as [|[k a] [k' b] l sl Hp Hf IH]; cbn; [constructor|].
-    pose proof (Pkey _ _ Hp) as E. cbn in E. subst k'.
-    destruct (k =? r); [exact IH|constructor; assumption].
-  Qed.
-
-  Lemma F2_upd l sl r x y : Forall2 P l sl -> P (r, x) (r, y) -> Forall2 P (upd r x l) (upd r y sl).
-  Proof.
-    intros H Hxy. induction H as [|[k a] [k' b] l sl Hp Hf IH]; cbn; [constructor|].
-    pose proof (Pkey _ _ Hp) as E. cbn in E. subst k'.
-    destruct (N.eqb_spec k r) as [->|Hn]; constructor; assumption.
-  Qed.
-End Assoc.
-
-Lemma upd_same {A} r (x : A) l : lookup r l = Some x -> upd r x l = l.
-Proof.
-  induction l as [|[k a] l IH]; cbn; [reflexivity|].
-  destruct (N.eqb_spec k r) as [->|Hn].
-  - intro H. now injection H as ->.
-  - intro H. f_equal. now apply IH.
-Qed.
-
-Lemma lookup_in {A} r (x : A) l : lookup r l = Some x -> In (r, x) l.
-Proof.
-  induction l as [|[k a] l IH]; cbn; [discriminate|].
-  destruct (N.eqb_spec k r) as [->|Hn].
-  - intro H. injection H as ->. now left.
-  - intro H. right. now apply IH.
-Qed.
-
-Lemma lookup_key_in {A} r (x : A) l : lookup r l = Some x -> In r (map fst l).
-Proof. intro H. apply lookup_in in H. apply in_map_iff. exists (r, x). now split. Qed.
-
-Lemma in_lookup {A} r (x : A) l : NoDup (map fst l) -> In (r, x) l -> lookup r l = Some x.
-Proof.
-  induction l as [|[k a] l IH]; cbn; intros Hnd Hin; [destruct Hin|].
-  inversion Hnd as [|k' l' Hk Hnd']; subst.
-  destruct Hin as [E|Hin].
-  - injection E as -> ->. now rewrite N.eqb_refl.
-  - destruct (N.eqb_spec k r) as [->|Hn]; [|now apply IH].
-    exfalso. apply Hk. apply in_map_iff. exists (r, x). now split.
-Qed.
-
-Lemma lookup_none_notin {A} r (l : list (N * A)) : lookup r l = None -> ~ In r (map fst l).
-Proof.
-  induction l as [|[k a] l IH]; cbn; [tauto|].
-  destruct (N.eqb_spec k r) as [->|Hn]; [discriminate|].
-  intros H [E|Hin]; [congruence|]. now apply IH.
-Qed.
-
-Lemma lookup_app {A} r (l1 l2 : list (N * A)) :
-  lookup r (l1 ++ l2) = match lookup r l1 with Some x => Some x | None => lookup r l2 end.
-Proof.
-  induction l1 as [|[k a] l1 IH]; cbn; [reflexivity|].
-  destruct (k =? r); [reflexivity|exact IH].
-Qed.
-
-Lemma map_fst_del {A} r (l : list (N * A)) : map fst (del r l) = delN r (map fst l).
-Proof.
-  induction l as [|[k a] l IH]; cbn; [reflexivity|].
-  destruct (k =? r); cbn; [exact IH|now f_equal].
-Qed.
-
-Lemma map_fst_upd {A} r (x : A) l : map fst (upd r x l) = map fst l.
-Proof.
-  induction l as [|[k a] l IH]; cbn; [reflexivity|].
-  destruct (N.eqb_spec k r) as [->|Hn]; cbn; [reflexivity|now f_equal].
-Qed.
-
-Lemma in_delN t x l : In x (delN t l) <-> In x l /\ x <> t.
-Proof.
-  unfold delN. rewrite filter_In. split.
-  - intros [H E]. split; [exact H|]. destruct (N.eqb_spec x t); [discriminate|assumption].
-  - intros [H E]. split; [exact H|]. destruct (N.eqb_spec x t); [contradiction|reflexivity].
-Qed.
-
-Lemma nodup_delN t l : NoDup l -> NoDup (delN t l).
-Proof. intro H. unfold delN. now apply NoDup_filter. Qed.
-
-Lemma memN_in t l : memN t l = true <-> In t l.
-Proof.
-  unfold memN. rewrite existsb_exists. split.
-  - intros [x [Hx E]]. apply N.eqb_eq in E. now subst.
-  - intro H. exists t. split; [exact H|apply N.eqb_refl].
-Qed.
-
-Lemma in_del {A} r k (x : A) l : In (k, x) (del r l) -> In (k, x) l /\ k <> r.
-Proof.
-  induction l as [|[k' a] l IH]; cbn; [tauto|].
-  destruct (N.eqb_spec k' r) as [->|Hn].
-  - intro H. apply IH in H. tauto.
-  - intros [E|H]; [injection E as -> ->; split; [now left|exact Hn]|]. apply IH in H. tauto.
-Qed.
-
-Lemma in_del_intro {A} r k (x : A) l : In (k, x) l -> k <> r -> In (k, x) (del r l).
-Proof.
-  induction l as [|[k' a] l IH]; cbn; [tauto|].
-  intros [E|H] Hn.
-  - injection E as -> ->. destruct (N.eqb_spec k r); [contradiction|now left].
-  - destruct (k' =? r); [now apply IH|right; now apply IH].
-Qed.
-
 (* ---- the relation ------------------------------------------------------------------------ *)
+Definition entry_val (e : entry) : val :=
+  match e with
+  | RVal (Some d) => VD d
+  | RVal None => VD DNil
+  | RFwd c => VPtr c
+  end.
+
 Definition sref_val (s : store) (rf : sref) : val :=
   match rf with
   | SNil => VD DNil
   | SCall t =>
       match lookup t (done s) with
-      | Some (Some d) => VD d
-      | Some None => VD DNil
+      | Some e => entry_val e
       | None => VPtr t
       end
   end.
@@ -167,28 +39,55 @@ Definition rec_rel (c : ch) (s : store) (x : N * rec) (y : N * srec) : Prop :=
 Lemma rec_rel_key c s x y : rec_rel c s x y -> fst x = fst y.
 Proof. now intros [H _]. Qed.
 
-Record R (h : heap) (s : store) (xs : list (N * sref)) : Prop := mkR {
+Definition loc_rel (c : ch) (s : store) (x y : N * N) : Prop :=
+  fst x = fst y /\ cell_ok c s (snd x) (SCall (snd y)).
+
+Definition tmp_rel (c : ch) (s : store) (x : N * N) (u : N) : Prop :=
+  snd x = u /\ cell_ok c s (fst x) (SCall u).
+
+(* who a tracked cell belongs to *)
+Inductive owner := OVm (t : N) | ORec (r : N) | OLoc (t : N) | OTmp (t : N).
+
+Definition owns (h : heap) (k : N) (o : owner) : Prop :=
+  match o with
+  | OVm t => In (t, k) (vms h)
+  | ORec r => exists a, In (r, mkRec a (Some k)) (recs h)
+  | OLoc t => In (t, k) (locs h)
+  | OTmp t => In (k, t) (tmps h)
+  end.
+
+Record R (h : heap) (s : store) : Prop := mkR {
   r_good : good (hc h);
   r_nrec : nrec h = snrec s;
   r_ncall : ncall h = sncall s;
   r_alive : map fst (vms h) = alive s;
-  r_ninst : ninst h = length (vms h);
+  r_tcall : tcall h = stcall s;
   r_recs : Forall2 (rec_rel (hc h) s) (recs h) (srecs s);
   r_vms : forall t rc, In (t, rc) (vms h) -> get (cells (hc h)) rc = Some (VPtr t);
+  r_locs : Forall2 (loc_rel (hc h) s) (locs h) (slocs s);
+  r_tmps : Forall2 (tmp_rel (hc h) s) (tmps h) (stmps s);
   r_nd_alive : NoDup (alive s);
   r_pending : forall t, In t (alive s) -> lookup t (done s) = None;
-  r_xs : forall c rf, In (c, rf) xs -> cell_ok (hc h) s c rf;
+  (* a forwarded result names an alive, younger thread *)
+  r_fwd : forall u c, lookup u (done s) = Some (RFwd c) -> In c (alive s) /\ u < c;
+  r_loc_alive : forall t c, In (t, c) (slocs s) -> t < c;
+  r_loc_keys : NoDup (map fst (locs h));
+  r_tmp_nd : NoDup (map fst (tmps h));
   (* the tracked cells are pairwise different *)
-  r_d_recs : forall r a r' a' c, In (r, mkRec a (Some c)) (recs h) ->
-             In (r', mkRec a' (Some c)) (recs h) -> r = r';
-  r_d_vr : forall t r a c, In (t, c) (vms h) -> In (r, mkRec a (Some c)) (recs h) -> False;
-  r_d_xs : forall c rf, In (c, rf) xs ->
-           (forall t, ~ In (t, c) (vms h)) /\ (forall r a, ~ In (r, mkRec a (Some c)) (recs h));
-  r_ptr_fresh : forall c p, holds (hc h) c p -> p < ncall h;
+  r_own : forall k o o', owns h k o -> owns h k o' -> o = o';
+  (* nothing stays pending after its thread is gone *)
+  r_ptr_alive : forall c p, holds (hc h) c p -> In p (alive s);
   r_done_fresh : forall t x, lookup t (done s) = Some x -> t < sncall s;
   r_alive_fresh : forall t, In t (alive s) -> t < sncall s;
   r_rec_keys : NoDup (map fst (recs h));
   r_rec_fresh : forall rid, In rid (map fst (recs h)) -> rid < nrec h }.
+
+Ltac sp := cbn [hc vms locs tcall recs nrec ncall tmps alive done slocs stcall srecs snrec sncall stmps fst snd].
+
+Lemma r_ptr_fresh h s : R h s -> forall c p, holds (hc h) c p -> p < ncall h.
+Proof.
+  intros HR c p H. rewrite (r_ncall _ _ HR). apply (r_alive_fresh _ _ HR). eapply (r_ptr_alive _ _ HR); eauto.
+Qed.
 
 Lemma recs_transfer c c' s s' l sl :
   Forall2 (rec_rel c s) l sl ->
@@ -203,295 +102,466 @@ Proof.
     + apply IH. intros r0 a0 k0 rf0 Hin Hok. apply (Ht r0 a0 k0 rf0); [right; exact Hin|exact Hok].
 Qed.
 
-Lemma vms_nodup_fst h s xs : R h s xs -> NoDup (map fst (vms h)).
-Proof. intro HR. rewrite (r_alive _ _ _ HR). apply (r_nd_alive _ _ _ HR). Qed.
+Lemma locs_transfer c c' s s' l sl :
+  Forall2 (loc_rel c s) l sl ->
+  (forall t k rf, In (t, k) l -> cell_ok c s k rf -> cell_ok c' s' k rf) ->
+  Forall2 (loc_rel c' s') l sl.
+Proof.
+  intros F Ht. eapply F2_transfer; [exact F|].
+  intros [t k] [t' u] Hx _ [E Hok]. split; [exact E|]. cbn [fst snd] in *. eapply Ht; eauto.
+Qed.
 
-Lemma vms_lookup_in h s xs t rc : R h s xs -> (lookup t (vms h) = Some rc <-> In (t, rc) (vms h)).
+Lemma tmps_transfer c c' s s' l sl :
+  Forall2 (tmp_rel c s) l sl ->
+  (forall k t rf, In (k, t) l -> cell_ok c s k rf -> cell_ok c' s' k rf) ->
+  Forall2 (tmp_rel c' s') l sl.
+Proof.
+  intros F Ht. eapply F2_transfer; [exact F|].
+  intros [k t] u Hx _ [E Hok]. split; [exact E|]. cbn [fst snd] in *. eapply Ht; eauto.
+Qed.
+
+Lemma vms_nodup_fst h s : R h s -> NoDup (map fst (vms h)).
+Proof. intro HR. rewrite (r_alive _ _ HR). apply (r_nd_alive _ _ HR). Qed.
+
+Lemma vms_lookup_in h s t rc : R h s -> (lookup t (vms h) = Some rc <-> In (t, rc) (vms h)).
 Proof.
   intro HR. split; [apply lookup_in|]. apply in_lookup. eapply vms_nodup_fst; eauto.
 Qed.
 
-Lemma vms_same_cell h s xs t t' rc : R h s xs -> In (t, rc) (vms h) -> In (t', rc) (vms h) -> t = t'.
+Lemma vms_same_cell h s t t' rc : R h s -> In (t, rc) (vms h) -> In (t', rc) (vms h) -> t = t'.
 Proof.
-  intros HR H1 H2. apply (r_vms _ _ _ HR) in H1. apply (r_vms _ _ _ HR) in H2. congruence.
+  intros HR H1 H2. apply (r_vms _ _ HR) in H1. apply (r_vms _ _ HR) in H2. congruence.
 Qed.
 
-Lemma alive_iff h s xs t : R h s xs -> (memN t (alive s) = true <-> exists rc, In (t, rc) (vms h)).
+Lemma alive_iff h s t : R h s -> (memN t (alive s) = true <-> exists rc, In (t, rc) (vms h)).
 Proof.
-  intro HR. rewrite memN_in, <- (r_alive _ _ _ HR), in_map_iff. split.
+  intro HR. rewrite memN_in, <- (r_alive _ _ HR), in_map_iff. split.
   - intros [[t' rc] [E H]]. cbn in E. subst. now exists rc.
   - intros [rc H]. exists (t, rc). now split.
 Qed.
 
-(* ---- updates of association lists as maps -------------------------------------------------- *)
-Definition amap {A} (f : N -> A -> A) (l : list (N * A)) : list (N * A) :=
-  map (fun x => (fst x, f (fst x) (snd x))) l.
-
-Lemma amap_id {A} (l : list (N * A)) : amap (fun _ b => b) l = l.
-Proof. unfold amap. induction l as [|[k a] l IH]; cbn; [reflexivity|now f_equal]. Qed.
-
-Lemma upd_amap {A} r (y : A) l : NoDup (map fst l) ->
-  upd r y l = amap (fun k b => if k =? r then y else b) l.
-Proof.
-  unfold amap. induction l as [|[k a] l IH]; cbn; intro Hnd; [reflexivity|].
-  inversion Hnd as [|k' l' Hk Hnd']; subst.
-  destruct (N.eqb_spec k r) as [->|Hn].
-  - f_equal. clear IH Hnd Hnd'. induction l as [|[k a'] l IH]; cbn; [reflexivity|].
-    cbn in Hk. destruct (N.eqb_spec k r) as [->|Hn]; [exfalso; apply Hk; now left|].
-    f_equal. apply IH. intro H. apply Hk. now right.
-  - f_equal. now apply IH.
-Qed.
-
-Lemma F2_amap {A B} (P P' : N * A -> N * B -> Prop) f g l sl :
-  Forall2 P l sl ->
-  (forall x y, In x l -> In y sl -> P x y ->
-               P' (fst x, f (fst x) (snd x)) (fst y, g (fst y) (snd y))) ->
-  Forall2 P' (amap f l) (amap g sl).
-Proof.
-  unfold amap. induction 1 as [|x y l sl Hp Hf IH]; cbn; intro Hi; [constructor|].
-  constructor.
-  - apply (Hi x y); [left; reflexivity|left; reflexivity|exact Hp].
-  - apply IH. intros x' y' Hx Hy. apply (Hi x' y'); right; assumption.
-Qed.
-
-Lemma F2_keys {A B} (P : N * A -> N * B -> Prop) l sl :
-  (forall x y, P x y -> fst x = fst y) -> Forall2 P l sl -> map fst l = map fst sl.
-Proof.
-  intro Pk. induction 1 as [|x y l sl Hp Hf IH]; cbn; [reflexivity|].
-  f_equal; [now apply Pk|exact IH].
-Qed.
-
-Lemma in_amap {A} (f : N -> A -> A) k z l : In (k, z) (amap f l) -> exists a, In (k, a) l /\ z = f k a.
-Proof.
-  unfold amap. rewrite in_map_iff. intros [[k' a] [E H]]. cbn in E. injection E as -> <-.
-  now exists a.
-Qed.
-
-Lemma map_fst_amap {A} (f : N -> A -> A) l : map fst (amap f l) = map fst l.
-Proof. unfold amap. rewrite map_map. cbn. reflexivity. Qed.
-
-Lemma delN_notin t l : ~ In t l -> delN t l = l.
-Proof.
-  unfold delN. induction l as [|a l IH]; cbn; intro H; [reflexivity|].
-  destruct (N.eqb_spec a t) as [->|Hn]; [exfalso; apply H; now left|].
-  cbn. f_equal. apply IH. intro Hin. apply H. now right.
-Qed.
-
-Lemma del_notin {A} t (l : list (N * A)) : ~ In t (map fst l) -> del t l = l.
-Proof.
-  induction l as [|[k a] l IH]; cbn; intro H; [reflexivity|].
-  destruct (N.eqb_spec k t) as [->|Hn]; [exfalso; apply H; now left|].
-  f_equal. apply IH. intro Hin. apply H. now right.
-Qed.
-
-Lemma length_del {A} t (x : A) l : NoDup (map fst l) -> lookup t l = Some x ->
-  length (del t l) = pred (length l).
-Proof.
-  induction l as [|[k a] l IH]; cbn; intros Hnd Hl; [discriminate|].
-  inversion Hnd as [|k' l' Hk Hnd']; subst.
-  destruct (N.eqb_spec k t) as [->|Hn].
-  - now rewrite del_notin.
-  - cbn. rewrite (IH Hnd' Hl). destruct l as [|y l]; [discriminate|reflexivity].
-Qed.
-
-Lemma store_eta s : mkStore (alive s) (done s) (srecs s) (snrec s) (sncall s) = s.
+Lemma store_eta s :
+  mkStore (alive s) (done s) (slocs s) (stcall s) (srecs s) (snrec s) (sncall s) (stmps s) = s.
 Proof. now destruct s. Qed.
 
-Lemma heap_eta h : mkHeap (hc h) (vms h) (recs h) (nrec h) (ncall h) (ninst h) (tmp h) = h.
-Proof. now destruct h. Qed.
-
-Lemma tracked_live h s xs : R h s xs ->
-  (forall t rc, In (t, rc) (vms h) -> live (hc h) rc) /\
-  (forall r a k, In (r, mkRec a (Some k)) (recs h) -> live (hc h) k) /\
-  (forall c rf, In (c, rf) xs -> live (hc h) c).
+(* every tracked cell is live and holds what its reference says *)
+Lemma owned_ok h s k o : R h s -> owns h k o ->
+  exists rf, cell_ok (hc h) s k rf.
 Proof.
-  intro HR. repeat split.
-  - intros t rc H. apply (r_vms _ _ _ HR) in H. unfold live. congruence.
-  - intros r a k. generalize (r_recs _ _ _ HR). generalize (recs h) (srecs s).
-    induction 1 as [|x y l sl Hp Hf IH]; intro H; [destruct H|].
-    destruct H as [->|H]; [|now apply IH].
-    destruct Hp as (_ & _ & Hs). cbn in Hs. destruct (sslot (snd y)); [|destruct Hs].
-    unfold cell_ok in Hs. unfold live. congruence.
-  - intros c rf H. apply (r_xs _ _ _ HR) in H. unfold cell_ok in H. unfold live. congruence.
+  intros HR Ho. destruct o as [t|r|t|t]; cbn [owns] in Ho.
+  - exists (SCall t). unfold cell_ok, sref_val. rewrite (r_vms _ _ HR _ _ Ho).
+    rewrite (r_pending _ _ HR); [reflexivity|]. rewrite <- (r_alive _ _ HR). apply in_map_iff. exists (t, k). now split.
+  - destruct Ho as [a Hin]. destruct (F2_in_l _ _ _ _ (r_recs _ _ HR) Hin) as [[r' [a' o']] [_ (E1 & E2 & E3)]].
+    cbn [fst snd rargs rslot sargs sslot] in *. destruct o' as [rf|]; [|destruct E3]. now exists rf.
+  - destruct (F2_in_l _ _ _ _ (r_locs _ _ HR) Ho) as [[t' u] [_ [E1 E2]]]. cbn [fst snd] in *. now exists (SCall u).
+  - destruct (F2_in_l _ _ _ _ (r_tmps _ _ HR) Ho) as [u [_ [E1 E2]]]. cbn [fst snd] in *. now exists (SCall u).
 Qed.
 
-(* a cell that is not touched keeps satisfying its reference when the result map is unchanged *)
+Lemma owned_live h s k o : R h s -> owns h k o -> live (hc h) k.
+Proof.
+  intros HR Ho. destruct (owned_ok h s k o HR Ho) as [rf H]. unfold cell_ok in H. unfold live. congruence.
+Qed.
+
+Lemma fresh_not_owned h s k o : R h s -> owns h k o -> k < ncell (hc h).
+Proof.
+  intros HR Ho. pose proof (owned_live _ _ _ _ HR Ho) as Hl.
+  destruct (N.lt_ge_cases k (ncell (hc h))) as [H|H]; [exact H|].
+  exfalso. apply Hl. destruct (r_good _ _ HR) as [_ [_ _ Hf]]. now apply Hf.
+Qed.
+
 Lemma cell_ok_frame c c' s s' k rf :
   done s' = done s -> get (cells c') k = get (cells c) k -> cell_ok c s k rf -> cell_ok c' s' k rf.
 Proof. unfold cell_ok, sref_val. intros -> ->. auto. Qed.
 
-Ltac sp := cbn [hc vms recs nrec ncall ninst tmp alive done srecs snrec sncall fst snd].
-
-(* ---- a thread is deleted ------------------------------------------------------------------ *)
-Lemma vm_kill_R t h s xs : R h s xs -> R (vm_kill t h) (s_kill t s) xs /\ tmp (vm_kill t h) = tmp h.
+(* ---- the result map when a thread ends ------------------------------------------------------ *)
+Lemma lookup_map_subst t ent u l :
+  lookup u (map (subst t ent) l) =
+  match lookup u l with
+  | Some (RFwd c) => if c =? t then Some ent else Some (RFwd c)
+  | x => x
+  end.
 Proof.
-  intro HR. unfold vm_kill, s_kill.
-  destruct (lookup t (vms h)) as [rc|] eqn:El.
-  - (* alive *)
-    assert (Hin : In (t, rc) (vms h)) by now apply lookup_in.
-    assert (Hrc : get (cells (hc h)) rc = Some (VPtr t)) by now apply (r_vms _ _ _ HR).
-    destruct (destroy_ok (hc h) rc (r_good _ _ _ HR)) as (G & C & Nc); [unfold live; congruence|].
-    split; [|reflexivity].
-    assert (Hother : forall t' rc', In (t', rc') (del t (vms h)) -> In (t', rc') (vms h) /\ rc' <> rc).
-    { intros t' rc' H. apply in_del in H. destruct H as [H Hn]. split; [exact H|].
-      intro E. subst. apply Hn. eapply vms_same_cell; eauto. }
-    constructor; sp.
-    + exact G.
-    + apply (r_nrec _ _ _ HR).
-    + apply (r_ncall _ _ _ HR).
-    + rewrite map_fst_del. now rewrite (r_alive _ _ _ HR).
-    + rewrite (r_ninst _ _ _ HR). symmetry. eapply length_del; eauto. eapply vms_nodup_fst; eauto.
-    + eapply recs_transfer; [apply (r_recs _ _ _ HR)|].
-      intros r a k rf Hk. apply cell_ok_frame; [reflexivity|].
-      rewrite C, gso; [reflexivity|]. intro E. subst. eapply (r_d_vr _ _ _ HR); eauto.
-    + intros t' rc' H. destruct (Hother _ _ H) as [H1 H2]. rewrite C, gso by exact H2.
-      now apply (r_vms _ _ _ HR).
-    + apply nodup_delN. apply (r_nd_alive _ _ _ HR).
-    + intros t' H. apply in_delN in H. apply (r_pending _ _ _ HR). tauto.
-    + intros c rf H. eapply cell_ok_frame; [reflexivity| |apply (r_xs _ _ _ HR); exact H].
-      rewrite C, gso; [reflexivity|]. intro E. subst.
-      destruct (r_d_xs _ _ _ HR _ _ H) as [H1 _]. eapply H1; eauto.
-    + apply (r_d_recs _ _ _ HR).
-    + intros t' r a c H. destruct (Hother _ _ H) as [H1 _]. eapply (r_d_vr _ _ _ HR); eauto.
-    + intros c rf H. destruct (r_d_xs _ _ _ HR _ _ H) as [H1 H2]. split; [|exact H2].
-      intros t' H'. destruct (Hother _ _ H') as [H3 _]. eapply H1; eauto.
-    + intros c p H. unfold holds in H. rewrite C, get_set in H.
-      destruct (c =? rc); [discriminate|]. now apply (r_ptr_fresh _ _ _ HR c).
-    + apply (r_done_fresh _ _ _ HR).
-    + intros t' H. apply in_delN in H. apply (r_alive_fresh _ _ _ HR). tauto.
-    + apply (r_rec_keys _ _ _ HR).
-    + apply (r_rec_fresh _ _ _ HR).
-  - (* no such thread *)
-    split; [|reflexivity].
-    assert (Hn : ~ In t (alive s)).
-    { rewrite <- (r_alive _ _ _ HR). now apply lookup_none_notin. }
-    rewrite (delN_notin _ _ Hn), store_eta. exact HR.
+  induction l as [|[k e] l IH]; cbn [map lookup]; [reflexivity|].
+  unfold subst at 1. cbn [fst snd]. destruct e as [v|c].
+  - cbn [lookup]. destruct (k =? u); [reflexivity|exact IH].
+  - destruct (N.eqb_spec c t) as [->|Hn]; cbn [lookup]; destruct (k =? u); try exact IH.
+    + now rewrite N.eqb_refl.
+    + destruct (N.eqb_spec c t); [contradiction|reflexivity].
+Qed.
+
+Lemma sref_val_end s s' t ent rf :
+  lookup t (done s) = None -> done s' = (t, ent) :: map (subst t ent) (done s) ->
+  (sref_val s rf = VPtr t -> sref_val s' rf = entry_val ent) /\
+  (sref_val s rf <> VPtr t -> sref_val s' rf = sref_val s rf).
+Proof.
+  intros Hp Hd. destruct rf as [u|]; [|split; [discriminate|reflexivity]].
+  unfold sref_val. rewrite Hd. cbn [lookup].
+  destruct (N.eqb_spec t u) as [<-|Hn].
+  - rewrite Hp. split; [reflexivity|congruence].
+  - rewrite lookup_map_subst. destruct (lookup u (done s)) as [[v|c]|] eqn:E.
+    + split; [destruct v; discriminate|reflexivity].
+    + cbn [entry_val]. destruct (N.eqb_spec c t) as [->|Hc]; split; try reflexivity; try congruence.
+    + split; [intro H; injection H as ->; contradiction|reflexivity].
+Qed.
+
+(* the thread t is gone: its VM cell and its variable are dead, every holder of its pending
+   result holds what the thread's entry says, nothing else changed *)
+Lemma R_thread_gone h s t rc e c' :
+  R h s -> In (t, rc) (vms h) ->
+  good c' -> ncell c' = ncell (hc h) ->
+  (forall k, k <> rc -> lookup t (locs h) <> Some k ->
+     (holds (hc h) k t -> get (cells c') k = Some (entry_val (end_entry s t e))) /\
+     (~ holds (hc h) k t -> get (cells c') k = get (cells (hc h)) k)) ->
+  get (cells c') rc = None ->
+  (forall x, lookup t (locs h) = Some x -> get (cells c') x = None) ->
+  (forall q, end_entry s t e = RFwd q -> In q (alive s) /\ t < q) ->
+  R (mkHeap c' (del t (vms h)) (del t (locs h)) (tcall h) (recs h) (nrec h) (ncall h) (tmps h)) (s_end t e s).
+Proof.
+  intros HR Hin G Nc Hcells Hrc Hlr Hq.
+  assert (Hal : memN t (alive s) = true) by (apply (alive_iff _ _ t HR); now exists rc).
+  assert (Hta : In t (alive s)) by now apply memN_in.
+  assert (Hpend : lookup t (done s) = None) by now apply (r_pending _ _ HR).
+  unfold s_end. rewrite Hal. set (ent := end_entry s t e) in *.
+  set (s' := mkStore (delN t (alive s)) ((t, ent) :: map (subst t ent) (done s)) (del t (slocs s)) (stcall s)
+                     (srecs s) (snrec s) (sncall s) (stmps s)).
+  assert (Hsv := fun rf => sref_val_end s s' t ent rf Hpend eq_refl).
+  (* a tracked cell other than rc and the variable keeps satisfying its reference *)
+  assert (Hcell : forall k rf, k <> rc -> lookup t (locs h) <> Some k ->
+                  cell_ok (hc h) s k rf -> cell_ok c' s' k rf).
+  { intros k rf H1 H2 Hok. unfold cell_ok in *. destruct (Hcells k H1 H2) as [Ch Cn]. destruct (Hsv rf) as [S1 S2].
+    destruct (val_eq_dec (sref_val s rf) (VPtr t)) as [E|E].
+    - rewrite S1 by exact E. apply Ch. unfold holds. now rewrite Hok, E.
+    - rewrite S2 by exact E. rewrite Cn; [exact Hok|]. unfold holds. rewrite Hok. congruence. }
+  assert (Hnotrc : forall k o, owns h k o -> o <> OVm t -> k <> rc).
+  { intros k o Ho Hne E. subst k. apply Hne. apply (r_own _ _ HR rc); [exact Ho|exact Hin]. }
+  assert (Hnotlr : forall k o, owns h k o -> o <> OLoc t -> lookup t (locs h) <> Some k).
+  { intros k o Ho Hne E. apply Hne. apply (r_own _ _ HR k); [exact Ho|]. cbn. now apply lookup_in. }
+  assert (Hother : forall t' rc', In (t', rc') (del t (vms h)) -> In (t', rc') (vms h) /\ t' <> t).
+  { intros t' rc' H. now apply in_del in H. }
+  subst s'. constructor; sp.
+  - exact G.
+  - apply (r_nrec _ _ HR).
+  - apply (r_ncall _ _ HR).
+  - rewrite map_fst_del. now rewrite (r_alive _ _ HR).
+  - apply (r_tcall _ _ HR).
+  - eapply recs_transfer; [apply (r_recs _ _ HR)|].
+    intros r a k rf Hk. apply Hcell.
+    + apply (Hnotrc k (ORec r)); [now exists a|discriminate].
+    + apply (Hnotlr k (ORec r)); [now exists a|discriminate].
+  - intros t' rc' H. destruct (Hother _ _ H) as [H1 H2].
+    assert (K1 : rc' <> rc) by (apply (Hnotrc rc' (OVm t')); [exact H1|congruence]).
+    assert (K2 : lookup t (locs h) <> Some rc') by (apply (Hnotlr rc' (OVm t')); [exact H1|discriminate]).
+    destruct (Hcells rc' K1 K2) as [_ Cn]. rewrite Cn; [now apply (r_vms _ _ HR)|].
+    unfold holds. rewrite (r_vms _ _ HR _ _ H1). congruence.
+  - eapply locs_transfer; [apply F2_del; [now intros x y [E _]|apply (r_locs _ _ HR)]|].
+    intros t' k rf Hk. apply in_del in Hk. destruct Hk as [Hk Hn]. apply Hcell.
+    + apply (Hnotrc k (OLoc t')); [exact Hk|discriminate].
+    + apply (Hnotlr k (OLoc t')); [exact Hk|congruence].
+  - eapply tmps_transfer; [apply (r_tmps _ _ HR)|].
+    intros k u rf Hk. apply Hcell.
+    + apply (Hnotrc k (OTmp u)); [exact Hk|discriminate].
+    + apply (Hnotlr k (OTmp u)); [exact Hk|discriminate].
+  - apply nodup_delN. apply (r_nd_alive _ _ HR).
+  - intros t' H. apply in_delN in H. destruct H as [H Hn]. cbn [lookup].
+    destruct (N.eqb_spec t t'); [congruence|]. rewrite lookup_map_subst. now rewrite (r_pending _ _ HR).
+  - intros u c. cbn [lookup]. destruct (N.eqb_spec t u) as [<-|Hn].
+    + intro H. injection H as H. destruct (Hq c H) as [H1 H2]. split; [|exact H2].
+      apply in_delN. split; [exact H1|lia].
+    + rewrite lookup_map_subst. destruct (lookup u (done s)) as [[v|c0]|] eqn:E; try discriminate.
+      destruct (r_fwd _ _ HR u c0 E) as [F1 F2].
+      destruct (N.eqb_spec c0 t) as [->|Hc].
+      * intro H. injection H as H. destruct (Hq c H) as [H1 H2]. split; [apply in_delN; split; [exact H1|lia]|lia].
+      * intro H. injection H as <-. split; [apply in_delN; split; assumption|exact F2].
+  - intros t' c H. apply in_del in H. destruct H as [H Hn]. exact (r_loc_alive _ _ HR t' c H).
+  - rewrite map_fst_del. apply nodup_delN. apply (r_loc_keys _ _ HR).
+  - apply (r_tmp_nd _ _ HR).
+  - intros k o o' Ho Ho'. apply (r_own _ _ HR k).
+    + destruct o; cbn [owns] in *; sp; auto; apply in_del in Ho; tauto.
+    + destruct o'; cbn [owns] in *; sp; auto; apply in_del in Ho'; tauto.
+  - intros k p Hh. unfold holds in Hh.
+    destruct (N.eq_dec k rc) as [->|Hk]; [congruence|].
+    destruct (option_N_eq_dec (lookup t (locs h)) (Some k)) as [E|E]; [rewrite (Hlr k E) in Hh; discriminate|].
+    destruct (Hcells k Hk E) as [Ch Cn].
+    destruct (holds_dec (hc h) k t) as [Hk_t|Hk_t].
+    + rewrite (Ch Hk_t) in Hh. destruct ent as [[d|]|q] eqn:Ee; cbn [entry_val] in Hh; try discriminate.
+      injection Hh as <-. destruct (Hq q eq_refl) as [H1 H2]. apply in_delN. split; [exact H1|lia].
+    + rewrite (Cn Hk_t) in Hh. apply in_delN. split; [now apply (r_ptr_alive _ _ HR k)|].
+      intro E2. subst. apply Hk_t. exact Hh.
+  - intros u x. cbn [lookup]. destruct (N.eqb_spec t u) as [<-|Hn].
+    + intros _. now apply (r_alive_fresh _ _ HR).
+    + rewrite lookup_map_subst. destruct (lookup u (done s)) as [e0|] eqn:E; [|discriminate].
+      intros _. eapply (r_done_fresh _ _ HR); eauto.
+  - intros t' H. apply in_delN in H. apply (r_alive_fresh _ _ HR). tauto.
+  - apply (r_rec_keys _ _ HR).
+  - apply (r_rec_fresh _ _ HR).
+Qed.
+
+Lemma loc_rel_key c s x y : loc_rel c s x y -> fst x = fst y.
+Proof. now intros [H _]. Qed.
+
+Lemma loc_corr h s t : R h s ->
+  match lookup t (locs h), lookup t (slocs s) with
+  | Some x, Some c => cell_ok (hc h) s x (SCall c) /\ In (t, x) (locs h) /\ In (t, c) (slocs s)
+  | None, None => True
+  | _, _ => False
+  end.
+Proof.
+  intro HR. destruct (lookup t (locs h)) as [x|] eqn:El.
+  - destruct (F2_lookup_some _ (loc_rel_key _ _) _ _ _ _ (r_locs _ _ HR) El) as [c [Ec [_ Hok]]].
+    rewrite Ec. cbn [snd] in Hok. repeat split; [exact Hok|now apply lookup_in|now apply lookup_in].
+  - now rewrite (F2_lookup_none _ (loc_rel_key _ _) _ _ _ (r_locs _ _ HR) El).
 Qed.
 
 (* ---- a thread ends ------------------------------------------------------------------------ *)
-Definition delivered (r : option dval) : val :=
-  match r with Some d => VD d | None => VD DNil end.
+(* c1 is c after the value v was delivered to the holders of t's pending result *)
+Definition delivered_to (c c1 : ch) (t rc : N) (v : val) : Prop :=
+  good c1 /\ ncell c1 = ncell c /\
+  (forall k, (holds c k t -> k <> rc -> get (cells c1) k = Some v) /\
+             (~ holds c k t -> get (cells c1) k = get (cells c) k)) /\
+  exists d', get (cells c1) rc = Some (VD d').
 
-Lemma vm_end_R t r h s xs : R h s xs -> R (vm_end t r h) (s_end t r s) xs /\ tmp (vm_end t r h) = tmp h.
+Lemma deliver_plain c t rc l d : good c -> get (ptrs c) t = Some l -> holds c rc t ->
+  delivered_to c (set_value_ref c t d rc) t rc (VD d).
 Proof.
-  intro HR. unfold vm_end, s_end.
+  intros Hg Hl Hrc. destruct (set_value_ref_ok c t d rc l Hg Hl) as (G & Nc & C).
+  split; [exact G|]. split; [exact Nc|]. split.
+  - intro k. destruct (C k) as (C1 & _ & C3). split; assumption.
+  - destruct (C rc) as (_ & C2 & _). now apply C2.
+Qed.
+
+Lemma deliver_none c t rc l : good c -> get (ptrs c) t = Some l -> holds c rc t ->
+  delivered_to c (ptr_clear c t) t rc (VD DNil).
+Proof.
+  intros Hg Hl Hrc. destruct (ptr_clear_ok c t l Hg Hl) as (G & Nc & C).
+  split; [exact G|]. split; [exact Nc|]. split.
+  - intro k. destruct (C k) as (C1 & C3). split; [intros Hk _; now apply C1|exact C3].
+  - exists DNil. destruct (C rc) as (C1 & _). now apply C1.
+Qed.
+
+Lemma deliver_fwd c t rc l q x : good c -> get (ptrs c) t = Some l -> holds c rc t -> holds c x q -> t <> q ->
+  delivered_to c (set_value_ref_fwd c t q rc) t rc (VPtr q).
+Proof.
+  intros Hg Hl Hrc Hxq Hne.
+  destruct (re_cell _ _ (proj2 Hg) x q) as [lq [Hlq _]]; [discriminate|exact Hxq|].
+  destruct (set_value_ref_fwd_ok c t q rc l lq Hg Hl Hlq Hne) as (G & Nc & C).
+  split; [exact G|]. split; [exact Nc|]. split.
+  - intro k. destruct (C k) as (C1 & _ & C3). split; [|exact C3]. intros Hk Hn. apply (C1 Hk Hn).
+  - exists DNil. destruct (C rc) as (_ & C2 & _). now apply C2.
+Qed.
+
+Definition end_cells (h : heap) (t rc : N) (e : endv) : ch :=
+  match e with
+  | EVal d => set_value_ref (hc h) t d rc
+  | ENone => ptr_clear (hc h) t
+  | ELocal => match lookup t (locs h) with
+              | Some x => match get (cells (hc h)) x with
+                          | Some (VPtr q) => set_value_ref_fwd (hc h) t q rc
+                          | Some (VD d) => set_value_ref (hc h) t d rc
+                          | None => bad (hc h)
+                          end
+              | None => set_value_ref (hc h) t DNil rc
+              end
+  end.
+
+Lemma end_cells_ok h s t rc e : R h s -> In (t, rc) (vms h) ->
+  delivered_to (hc h) (end_cells h t rc e) t rc (entry_val (end_entry s t e)) /\
+  forall q, end_entry s t e = RFwd q -> In q (alive s) /\ t < q.
+Proof.
+  intros HR Hin.
+  assert (Hrc : holds (hc h) rc t) by now apply (r_vms _ _ HR).
+  pose proof (r_good _ _ HR) as Hg.
+  destruct (re_cell _ _ (proj2 Hg) rc t) as [l [Hl _]]; [discriminate|exact Hrc|].
+  unfold end_cells, end_entry. destruct e as [d| |].
+  - split; [now apply (deliver_plain _ _ _ l)|discriminate].
+  - split; [now apply (deliver_none _ _ _ l)|discriminate].
+  - pose proof (loc_corr h s t HR) as Hloc.
+    destruct (lookup t (locs h)) as [x|] eqn:E1, (lookup t (slocs s)) as [c|] eqn:E2; try tauto.
+    + destruct Hloc as (Hok & Hi1 & Hi2). unfold cell_ok, sref_val in Hok. rewrite Hok.
+      pose proof (r_loc_alive _ _ HR t c Hi2) as Htc.
+      destruct (lookup c (done s)) as [[[d|]|q]|] eqn:Ec; cbn [entry_val] in *.
+      * split; [now apply (deliver_plain _ _ _ l)|discriminate].
+      * split; [now apply (deliver_plain _ _ _ l)|discriminate].
+      * destruct (r_fwd _ _ HR c q Ec) as [F1 F2].
+        split; [apply (deliver_fwd _ _ _ l q x); auto; lia|].
+        intros q' E. injection E as <-. split; [exact F1|lia].
+      * split; [apply (deliver_fwd _ _ _ l c x); auto; lia|].
+        intros q' E. injection E as <-. split; [|exact Htc]. eapply (r_ptr_alive _ _ HR); exact Hok.
+    + split; [now apply (deliver_plain _ _ _ l)|discriminate].
+Qed.
+
+(* the thread's variable: not the VM cell, not pending on the thread itself *)
+Lemma loc_cell_facts h s t rc x : R h s -> In (t, rc) (vms h) -> lookup t (locs h) = Some x ->
+  x <> rc /\ ~ holds (hc h) x t /\ live (hc h) x.
+Proof.
+  intros HR Hin E. pose proof (loc_corr h s t HR) as Hloc. rewrite E in Hloc.
+  destruct (lookup t (slocs s)) as [c|]; [|tauto]. destruct Hloc as (Hok & Hi1 & Hi2). split; [|split].
+  - intro Ex. subst x. assert (OLoc t = OVm t) by (apply (r_own _ _ HR rc); assumption). discriminate.
+  - intro Hh. unfold cell_ok, holds in *. rewrite Hok in Hh. injection Hh as Hh.
+    pose proof (r_loc_alive _ _ HR t c Hi2) as Htc. unfold sref_val in Hh.
+    destruct (lookup c (done s)) as [[v|q]|] eqn:Ec; cbn [entry_val] in Hh.
+    + destruct v; discriminate.
+    + injection Hh as ->. destruct (r_fwd _ _ HR c t Ec). lia.
+    + injection Hh as ->. lia.
+  - unfold cell_ok, live in *. congruence.
+Qed.
+
+Lemma destroy_opt_ok c o : good c -> (forall x, o = Some x -> live c x) ->
+  good (destroy_opt c o) /\ ncell (destroy_opt c o) = ncell c /\
+  forall k, get (cells (destroy_opt c o)) k = if option_N_eq_dec o (Some k) then None else get (cells c) k.
+Proof.
+  intros G Hl. destruct o as [x|]; cbn [destroy_opt].
+  - destruct (destroy_ok c x G (Hl x eq_refl)) as (G' & C & Nc).
+    split; [exact G'|]. split; [exact Nc|]. intro k. rewrite C, get_set.
+    destruct (option_N_eq_dec (Some x) (Some k)) as [E|E].
+    + injection E as ->. now rewrite N.eqb_refl.
+    + destruct (N.eqb_spec k x); [congruence|reflexivity].
+  - split; [exact G|]. split; [reflexivity|]. intro k.
+    destruct (option_N_eq_dec None (Some k)); [discriminate|reflexivity].
+Qed.
+
+Lemma vm_end_R t e h s : R h s -> R (vm_end t e h) (s_end t e s) /\ tmps (vm_end t e h) = tmps h.
+Proof.
+  intro HR. unfold vm_end.
   destruct (lookup t (vms h)) as [rc|] eqn:El.
-  - assert (Hin : In (t, rc) (vms h)) by now apply lookup_in.
-    assert (Hal : memN t (alive s) = true) by (apply (alive_iff _ _ _ t HR); now exists rc).
-    rewrite Hal.
-    assert (Hrc : get (cells (hc h)) rc = Some (VPtr t)) by now apply (r_vms _ _ _ HR).
-    rewrite Hrc. split; [|reflexivity].
-    pose proof (r_good _ _ _ HR) as Hg.
-    destruct (re_cell _ _ (proj2 Hg) rc t) as [l [Hl _]]; [discriminate|exact Hrc|].
-    assert (Hpend : lookup t (done s) = None) by (apply (r_pending _ _ _ HR); now apply memN_in).
-    (* the delivery *)
-    set (c1 := match r with
-               | Some d => set_value_ref (hc h) t d rc
-               | None => ptr_clear (hc h) t
-               end).
-    assert (D : good c1 /\ ncell c1 = ncell (hc h) /\
-                forall k, (holds (hc h) k t -> k <> rc -> get (cells c1) k = Some (delivered r)) /\
-                          (holds (hc h) k t -> exists d', get (cells c1) k = Some (VD d')) /\
-                          (~ holds (hc h) k t -> get (cells c1) k = get (cells (hc h)) k)).
-    { unfold c1. destruct r as [d|].
-      - exact (set_value_ref_ok (hc h) t d rc l Hg Hl).
-      - destruct (ptr_clear_ok (hc h) t l Hg Hl) as (G & Nc & C). split; [exact G|]. split; [exact Nc|].
-        intro k. destruct (C k) as [C1 C2]. repeat split; auto.
-        intro Hk. exists DNil. auto. }
-    destruct D as (G1 & N1 & D).
-    destruct (D rc) as (_ & [d' Hrc1] & _); [exact Hrc|].
-    destruct (destroy_ok c1 rc G1) as (G2 & C2 & N2); [unfold live; congruence|].
-    (* what a tracked cell other than rc holds afterwards *)
-    assert (Hcell : forall k rf, k <> rc -> cell_ok (hc h) s k rf ->
-              cell_ok (destroy c1 rc) (mkStore (delN t (alive s)) ((t, r) :: done s) (srecs s) (snrec s) (sncall s)) k rf).
-    { intros k rf Hk Hok. unfold cell_ok in *. rewrite C2, gso by exact Hk.
-      destruct (D k) as (Dv & _ & Dn). unfold sref_val in *. sp.
-      destruct rf as [t'|].
-      - cbn [lookup]. destruct (N.eqb_spec t t') as [<-|Hn].
-        + rewrite Hpend in Hok. rewrite Dv by (exact Hok || exact Hk). destruct r; reflexivity.
-        + rewrite Dn; [exact Hok|]. unfold holds. rewrite Hok.
-          destruct (lookup t' (done s)) as [[d0|]|]; congruence.
-      - rewrite Dn; [exact Hok|]. unfold holds. rewrite Hok. discriminate. }
-    assert (Hother : forall t' rc', In (t', rc') (del t (vms h)) ->
-                     In (t', rc') (vms h) /\ rc' <> rc /\ t' <> t).
-    { intros t' rc' H. apply in_del in H. destruct H as [H Hn]. split; [exact H|]. split; [|exact Hn].
-      intro E. subst. apply Hn. eapply vms_same_cell; eauto. }
-    constructor; sp.
-    + exact G2.
-    + apply (r_nrec _ _ _ HR).
-    + apply (r_ncall _ _ _ HR).
-    + rewrite map_fst_del. now rewrite (r_alive _ _ _ HR).
-    + rewrite (r_ninst _ _ _ HR). symmetry. eapply length_del; eauto. eapply vms_nodup_fst; eauto.
-    + eapply recs_transfer; [apply (r_recs _ _ _ HR)|].
-      intros r0 a k rf Hk. apply Hcell. intro E. subst. eapply (r_d_vr _ _ _ HR); eauto.
-    + intros t' rc' H. destruct (Hother _ _ H) as (H1 & H2 & H3). rewrite C2, gso by exact H2.
-      destruct (D rc') as (_ & _ & Dn). rewrite Dn; [now apply (r_vms _ _ _ HR)|].
-      unfold holds. rewrite (r_vms _ _ _ HR _ _ H1). congruence.
-    + apply nodup_delN. apply (r_nd_alive _ _ _ HR).
-    + intros t' H. apply in_delN in H. destruct H as [H Hn]. cbn [lookup].
-      destruct (N.eqb_spec t t'); [congruence|]. now apply (r_pending _ _ _ HR).
-    + intros c rf H. apply Hcell; [|apply (r_xs _ _ _ HR); exact H]. intro E. subst.
-      destruct (r_d_xs _ _ _ HR _ _ H) as [H1 _]. eapply H1; eauto.
-    + apply (r_d_recs _ _ _ HR).
-    + intros t' r0 a c H. destruct (Hother _ _ H) as [H1 _]. eapply (r_d_vr _ _ _ HR); eauto.
-    + intros c rf H. destruct (r_d_xs _ _ _ HR _ _ H) as [H1 H2]. split; [|exact H2].
-      intros t' H'. destruct (Hother _ _ H') as [H3 _]. eapply H1; eauto.
-    + intros c p H. unfold holds in H. rewrite C2, get_set in H.
-      destruct (c =? rc); [discriminate|].
-      destruct (D c) as (_ & Dh & Dn).
-      destruct (N.eq_dec p t) as [->|Hp].
-      * apply (r_ptr_fresh _ _ _ HR rc). exact Hrc.
-      * apply (r_ptr_fresh _ _ _ HR c). unfold holds. rewrite <- Dn; [exact H|].
-        intro Hh. destruct (Dh Hh) as [d0 E]. congruence.
-    + intros t' x. cbn [lookup]. destruct (N.eqb_spec t t') as [<-|Hn].
-      * intros _. apply (r_alive_fresh _ _ _ HR). now apply memN_in.
-      * apply (r_done_fresh _ _ _ HR).
-    + intros t' H. apply in_delN in H. apply (r_alive_fresh _ _ _ HR). tauto.
-    + apply (r_rec_keys _ _ _ HR).
-    + apply (r_rec_fresh _ _ _ HR).
-  - split; [|reflexivity].
-    assert (Hn : memN t (alive s) = false).
-    { destruct (memN t (alive s)) eqn:E; [|reflexivity].
-      apply (alive_iff _ _ _ t HR) in E. destruct E as [rc H].
-      apply (vms_lookup_in _ _ _ t rc HR) in H. congruence. }
-    rewrite Hn. exact HR.
+  2:{ split; [|reflexivity]. unfold s_end.
+      assert (Hn : memN t (alive s) = false).
+      { destruct (memN t (alive s)) eqn:E; [|reflexivity].
+        apply (alive_iff _ _ t HR) in E. destruct E as [rc H].
+        apply (vms_lookup_in _ _ t rc HR) in H. congruence. }
+      now rewrite Hn. }
+  assert (Hin : In (t, rc) (vms h)) by now apply lookup_in.
+  assert (Hrc : get (cells (hc h)) rc = Some (VPtr t)) by now apply (r_vms _ _ HR).
+  rewrite Hrc. split; [|reflexivity].
+  fold (end_cells h t rc e).
+  destruct (end_cells_ok h s t rc e HR Hin) as [(G1 & N1 & D & [d' Hrc1]) Hq].
+  set (c1 := end_cells h t rc e) in *. set (lr := lookup t (locs h)) in *.
+  assert (Hx : forall x, lr = Some x -> x <> rc /\ ~ holds (hc h) x t /\ live (hc h) x)
+    by (intros x E; now apply (loc_cell_facts h s t rc x HR Hin)).
+  destruct (destroy_opt_ok c1 lr G1) as (G2 & N2 & C2).
+  { intros x E. destruct (Hx x E) as (X1 & X2 & X3). unfold live. destruct (D x) as [_ Dn]. now rewrite (Dn X2). }
+  set (c2 := destroy_opt c1 lr) in *.
+  assert (Hrc2 : get (cells c2) rc = Some (VD d')).
+  { rewrite C2. destruct (option_N_eq_dec lr (Some rc)) as [E|E]; [|exact Hrc1].
+    destruct (Hx rc E) as [X _]. congruence. }
+  assert (Edt : vm_dtor c2 rc = destroy c2 rc) by (unfold vm_dtor; now rewrite Hrc2).
+  rewrite Edt.
+  destruct (destroy_ok c2 rc G2) as (G3 & C3 & N3); [unfold live; congruence|].
+  apply (R_thread_gone h s t rc e _ HR Hin G3).
+  - congruence.
+  - intros k Hk Hlk. rewrite C3, gso by exact Hk. rewrite C2.
+    destruct (option_N_eq_dec lr (Some k)) as [E|E]; [contradiction|].
+    destruct (D k) as [D1 D2]. split; [intro Hh; now apply D1|exact D2].
+  - rewrite C3. apply gss.
+  - intros x E. rewrite C3, get_set. destruct (x =? rc); [reflexivity|]. rewrite C2.
+    destruct (option_N_eq_dec lr (Some x)); [reflexivity|contradiction].
+  - exact Hq.
 Qed.
 
-(* ---- the host call: beginning ------------------------------------------------------------- *)
-Lemma call_begin_nolabel_R h s :
-  R h s [] -> R (fst (call_begin false h)) (fst (s_begin false s)) [] /\
-              snd (call_begin false h) = snd (s_begin false s).
+(* ---- a thread is deleted: the VM's destructor does what `end` without a value does ------------- *)
+Lemma vm_kill_R t h s : R h s -> R (vm_kill t h) (s_kill t s) /\ tmps (vm_kill t h) = tmps h.
 Proof.
-  intro HR. unfold call_begin, s_begin. sp. split; [|apply (r_ncall _ _ _ HR)].
-  constructor; sp.
-  - apply (r_good _ _ _ HR).
-  - apply (r_nrec _ _ _ HR).
-  - rewrite (r_ncall _ _ _ HR). reflexivity.
-  - apply (r_alive _ _ _ HR).
-  - cbn. apply (r_ninst _ _ _ HR).
-  - apply (r_recs _ _ _ HR).
-  - apply (r_vms _ _ _ HR).
-  - apply (r_nd_alive _ _ _ HR).
-  - apply (r_pending _ _ _ HR).
-  - apply (r_xs _ _ _ HR).
-  - apply (r_d_recs _ _ _ HR).
-  - apply (r_d_vr _ _ _ HR).
-  - apply (r_d_xs _ _ _ HR).
-  - intros c p H. pose proof (r_ptr_fresh _ _ _ HR c p H). lia.
-  - intros t x H. pose proof (r_done_fresh _ _ _ HR t x H). lia.
-  - intros t H. pose proof (r_alive_fresh _ _ _ HR t H). lia.
-  - apply (r_rec_keys _ _ _ HR).
-  - apply (r_rec_fresh _ _ _ HR).
+  intro HR. unfold vm_kill, s_kill.
+  destruct (lookup t (vms h)) as [rc|] eqn:El.
+  2:{ split; [|reflexivity]. unfold s_end.
+      assert (Hn : memN t (alive s) = false).
+      { destruct (memN t (alive s)) eqn:E; [|reflexivity].
+        apply (alive_iff _ _ t HR) in E. destruct E as [rc H].
+        apply (vms_lookup_in _ _ t rc HR) in H. congruence. }
+      now rewrite Hn. }
+  assert (Hin : In (t, rc) (vms h)) by now apply lookup_in.
+  assert (Hrc : get (cells (hc h)) rc = Some (VPtr t)) by now apply (r_vms _ _ HR).
+  split; [|reflexivity].
+  destruct (end_cells_ok h s t rc ENone HR Hin) as [(G1 & N1 & D & [d' Hrc1]) Hq].
+  cbn [end_cells] in *. set (c1 := ptr_clear (hc h) t) in *. set (lr := lookup t (locs h)) in *.
+  assert (Hx : forall x, lr = Some x -> x <> rc /\ ~ holds (hc h) x t /\ live (hc h) x)
+    by (intros x E; now apply (loc_cell_facts h s t rc x HR Hin)).
+  destruct (destroy_ok c1 rc G1) as (G2 & C2 & N2); [unfold live; congruence|].
+  assert (Edt : vm_dtor (hc h) rc = destroy c1 rc).
+  { unfold vm_dtor. rewrite Hrc. reflexivity. }
+  rewrite Edt.
+  destruct (destroy_opt_ok (destroy c1 rc) lr G2) as (G3 & N3 & C3).
+  { intros x E. destruct (Hx x E) as (X1 & X2 & X3). unfold live. rewrite C2, gso by exact X1.
+    destruct (D x) as [_ Dn]. now rewrite (Dn X2). }
+  apply (R_thread_gone h s t rc ENone _ HR Hin G3).
+  - congruence.
+  - intros k Hk Hlk. rewrite C3. destruct (option_N_eq_dec lr (Some k)) as [E|E]; [contradiction|].
+    rewrite C2, gso by exact Hk. destruct (D k) as [D1 D2]. split; [intro Hh; now apply D1|exact D2].
+  - rewrite C3. destruct (option_N_eq_dec lr (Some rc)); [reflexivity|]. rewrite C2. apply gss.
+  - intros x E. rewrite C3. destruct (option_N_eq_dec lr (Some x)); [reflexivity|contradiction].
+  - exact Hq.
 Qed.
 
-Lemma call_begin_R h s :
-  R h s [] ->
-  let h' := fst (call_begin true h) in
-  let t := snd (call_begin true h) in
-  R h' (fst (s_begin true s)) [(tmp h', SCall t)] /\ t = snd (s_begin true s) /\ t = ncall h.
+(* ---- ... or while it executes: marked first, the VM's destructor runs at the end of Execute ------ *)
+Lemma vm_kill_exec_R t h s : R h s -> R (vm_kill_exec t h) (s_kill t s) /\ tmps (vm_kill_exec t h) = tmps h.
 Proof.
-  intro HR. unfold call_begin, s_begin.
-  pose proof (r_good _ _ _ HR) as G0.
+  intro HR. unfold vm_kill_exec, vm_mark, vm_reap, s_kill.
+  destruct (lookup t (vms h)) as [rc|] eqn:El.
+  2:{ split; [|reflexivity]. unfold s_end.
+      assert (Hn : memN t (alive s) = false).
+      { destruct (memN t (alive s)) eqn:E; [|reflexivity].
+        apply (alive_iff _ _ t HR) in E. destruct E as [rc H].
+        apply (vms_lookup_in _ _ t rc HR) in H. congruence. }
+      now rewrite Hn. }
+  assert (Hin : In (t, rc) (vms h)) by now apply lookup_in.
+  assert (Hrc : get (cells (hc h)) rc = Some (VPtr t)) by now apply (r_vms _ _ HR).
+  sp. split; [|reflexivity].
+  pose proof (r_good _ _ HR) as G0.
+  set (lr := lookup t (locs h)) in *.
+  assert (Hx : forall x, lr = Some x -> x <> rc /\ ~ holds (hc h) x t /\ live (hc h) x)
+    by (intros x E; now apply (loc_cell_facts h s t rc x HR Hin)).
+  destruct (destroy_opt_ok (hc h) lr G0) as (G1 & N1 & C1); [intros x E; now apply Hx|].
+  set (c1 := destroy_opt (hc h) lr) in *.
+  assert (Hrc1 : get (cells c1) rc = Some (VPtr t)).
+  { rewrite C1. destruct (option_N_eq_dec lr (Some rc)) as [E|E]; [|exact Hrc]. destruct (Hx rc E) as [X _]. congruence. }
+  destruct (re_cell _ _ (proj2 G1) rc t) as [l [Hl _]]; [discriminate|exact Hrc1|].
+  destruct (ptr_clear_ok c1 t l G1 Hl) as (G2 & N2 & C2).
+  assert (Edt : vm_dtor c1 rc = destroy (ptr_clear c1 t) rc) by (unfold vm_dtor; now rewrite Hrc1).
+  rewrite Edt.
+  destruct (C2 rc) as [Crc _]. specialize (Crc Hrc1).
+  destruct (destroy_ok (ptr_clear c1 t) rc G2) as (G3 & C3 & N3); [unfold live; congruence|].
+  apply (R_thread_gone h s t rc ENone _ HR Hin G3).
+  - congruence.
+  - intros k Hk Hlk. rewrite C3, gso by exact Hk. destruct (C2 k) as [D1 D2].
+    assert (Ek : get (cells c1) k = get (cells (hc h)) k).
+    { rewrite C1. destruct (option_N_eq_dec lr (Some k)); [contradiction|reflexivity]. }
+    split.
+    + intro Hh. cbn [end_entry entry_val]. apply D1. unfold holds. now rewrite Ek.
+    + intro Hh. rewrite D2; [exact Ek|]. unfold holds. now rewrite Ek.
+  - rewrite C3. apply gss.
+  - intros x E. destruct (Hx x E) as (X1 & X2 & X3). rewrite C3, gso by exact X1.
+    destruct (C2 x) as [_ D2]. rewrite D2.
+    + rewrite C1. destruct (option_N_eq_dec lr (Some x)); [reflexivity|contradiction].
+    + unfold holds. rewrite C1. destruct (option_N_eq_dec lr (Some x)); [discriminate|contradiction].
+  - discriminate.
+Qed.
+
+(* ---- ownership of tracked cells ---------------------------------------------------------------- *)
+Lemma own_inj_sub h s h' : R h s -> (forall k o, owns h' k o -> owns h k o) ->
+  forall k o o', owns h' k o -> owns h' k o' -> o = o'.
+Proof. intros HR Hs k o o' H1 H2. apply (r_own _ _ HR k); now apply Hs. Qed.
+
+(* new owners get fresh cells *)
+Lemma own_inj_extend h s h' k1 o1 k2 o2 : R h s ->
+  ncell (hc h) <= k1 -> ncell (hc h) <= k2 -> (k1 = k2 -> o1 = o2) ->
+  (forall k o, owns h' k o -> owns h k o \/ (k = k1 /\ o = o1) \/ (k = k2 /\ o = o2)) ->
+  forall k o o', owns h' k o -> owns h' k o' -> o = o'.
+Proof.
+  intros HR F1 F2 F12 Hs k o o' H1 H2.
+  assert (Hold : forall k0 o0, owns h k0 o0 -> k0 <> k1 /\ k0 <> k2).
+  { intros k0 o0 H0. pose proof (fresh_not_owned _ _ _ _ HR H0). lia. }
+  destruct (Hs _ _ H1) as [A|[[A1 A2]|[A1 A2]]], (Hs _ _ H2) as [B|[[B1 B2]|[B1 B2]]]; subst;
+    try (destruct (Hold _ _ A); congruence); try (destruct (Hold _ _ B); congruence); auto.
+  - apply (r_own _ _ HR k); assumption.
+  - symmetry. now apply F12.
+Qed.
+
+(* ---- a thread is created (host call or `thread`) ------------------------------------------------ *)
+Lemma thread_begin_R call h s : R h s ->
+  R (fst (thread_begin call h)) (fst (s_thread_begin call s)) /\
+  snd (thread_begin call h) = snd (s_thread_begin call s) /\ snd (thread_begin call h) = ncall h.
+Proof.
+  intro HR. unfold thread_begin, s_thread_begin.
+  pose proof (r_good _ _ HR) as G0.
   destruct (alloc_ok (hc h) DNil G0) as (G1 & S1 & C1 & N1).
   destruct (alloc (hc h) (VD DNil)) as [c1 rc] eqn:E1. cbn [fst snd] in *. subst rc.
   destruct (alloc_ok c1 DNil G1) as (G2 & S2 & C2 & N2).
@@ -505,7 +575,7 @@ Proof.
   assert (Hnoh : forall k, ~ holds c2 k t).
   { intros k Hk. unfold holds in Hk. rewrite Hc2 in Hk.
     destruct (k =? tm); [discriminate|]. destruct (k =? rc); [discriminate|].
-    pose proof (r_ptr_fresh _ _ _ HR k t Hk). unfold t in *. lia. }
+    pose proof (r_ptr_fresh _ _ HR k t Hk). unfold t in *. lia. }
   destruct (new_pointer_ok c2 tm t DNil G2) as (G3 & C3 & N3).
   { rewrite Hc2, N.eqb_refl. reflexivity. }
   { exact Hnoh. }
@@ -519,180 +589,373 @@ Proof.
             if k =? rc then Some (VPtr t) else if k =? tm then Some (VPtr t) else get (cells (hc h)) k).
   { intro k. rewrite C4, C3, !get_set, Hc2.
     destruct (k =? rc); [reflexivity|]. destruct (k =? tm); reflexivity. }
-  assert (Hfresh : forall k, live (hc h) k -> k <> rc /\ k <> tm).
-  { intros k Hk. destruct G0 as [_ [_ _ Hf]]. unfold live in Hk.
-    split; intro E; apply Hk; apply Hf; unfold rc in *; lia. }
   assert (Hold : forall k, live (hc h) k -> get (cells c4) k = get (cells (hc h)) k).
-  { intros k Hk. destruct (Hfresh k Hk) as [H1 H2]. rewrite Hc4.
-    destruct (N.eqb_spec k rc); [contradiction|]. destruct (N.eqb_spec k tm); [contradiction|reflexivity]. }
-  destruct (tracked_live _ _ _ HR) as (Lv & Lr & _).
+  { intros k Hk. rewrite Hc4. destruct G0 as [_ [_ _ Hf]]. unfold live in Hk.
+    destruct (N.eqb_spec k rc) as [E|_]; [exfalso; apply Hk, Hf; unfold rc in *; lia|].
+    destruct (N.eqb_spec k tm) as [E|_]; [exfalso; apply Hk, Hf; unfold rc in *; lia|reflexivity]. }
+  assert (Hown : forall k o rf, owns h k o -> cell_ok (hc h) s k rf ->
+            cell_ok c4 (mkStore (alive s ++ [sncall s]) (done s) (slocs s) (stcall s ++ [(sncall s, call)])
+                                (srecs s) (snrec s) (sncall s + 1) (sncall s :: stmps s)) k rf).
+  { intros k o rf Ho. apply cell_ok_frame; [reflexivity|]. apply Hold. eapply owned_live; eauto. }
   assert (Hnd : lookup t (done s) = None).
   { destruct (lookup t (done s)) eqn:E; [|reflexivity].
-    pose proof (r_done_fresh _ _ _ HR _ _ E). rewrite <- (r_ncall _ _ _ HR) in H. unfold t in H. lia. }
+    pose proof (r_done_fresh _ _ HR _ _ E). rewrite <- (r_ncall _ _ HR) in H. unfold t in H. lia. }
   assert (Hna : ~ In t (alive s)).
-  { intro H. pose proof (r_alive_fresh _ _ _ HR _ H). rewrite <- (r_ncall _ _ _ HR) in H0. unfold t in H0. lia. }
-  sp. split; [|split; [apply (r_ncall _ _ _ HR)|reflexivity]].
+  { intro H. pose proof (r_alive_fresh _ _ HR _ H). rewrite <- (r_ncall _ _ HR) in H0. unfold t in H0. lia. }
+  assert (Et : t = sncall s) by apply (r_ncall _ _ HR).
+  cbn [fst snd]. split; [|split; [exact Et|reflexivity]].
   constructor; sp.
   - exact G4.
-  - apply (r_nrec _ _ _ HR).
-  - unfold t. rewrite (r_ncall _ _ _ HR). reflexivity.
-  - rewrite map_app. cbn. rewrite (r_alive _ _ _ HR). unfold t. now rewrite (r_ncall _ _ _ HR).
-  - rewrite app_length. cbn. rewrite (r_ninst _ _ _ HR). lia.
-  - eapply recs_transfer; [apply (r_recs _ _ _ HR)|].
-    intros r a k rf Hk. apply cell_ok_frame; [reflexivity|]. apply Hold. eapply Lr; eauto.
+  - apply (r_nrec _ _ HR).
+  - now rewrite Et.
+  - rewrite map_app. cbn. rewrite (r_alive _ _ HR). now rewrite Et.
+  - rewrite (r_tcall _ _ HR). now rewrite Et.
+  - eapply recs_transfer; [apply (r_recs _ _ HR)|].
+    intros r a k rf Hk. apply (Hown k (ORec r)). now exists a.
   - intros t' rc' H. apply in_app_or in H. destruct H as [H|[E|[]]].
-    + rewrite Hold by (eapply Lv; eauto). now apply (r_vms _ _ _ HR).
+    + rewrite Hold by (eapply (owned_live h s rc' (OVm t')); eauto). now apply (r_vms _ _ HR).
     + injection E as <- <-. rewrite Hc4, N.eqb_refl. reflexivity.
-  - rewrite <- (r_ncall _ _ _ HR). apply nodup_snoc; [apply (r_nd_alive _ _ _ HR)|exact Hna].
+  - eapply locs_transfer; [apply (r_locs _ _ HR)|]. intros t' k rf Hk. now apply (Hown k (OLoc t')).
+  - constructor.
+    + split; [exact Et|]. unfold cell_ok, sref_val. sp. rewrite <- Et, Hnd. rewrite Hc4.
+      destruct (tm =? rc); [reflexivity|]. now rewrite N.eqb_refl.
+    + eapply tmps_transfer; [apply (r_tmps _ _ HR)|]. intros k u rf Hk. now apply (Hown k (OTmp u)).
+  - rewrite <- Et. apply nodup_snoc; [apply (r_nd_alive _ _ HR)|exact Hna].
   - intros t' H. apply in_app_or in H. destruct H as [H|[E|[]]].
-    + now apply (r_pending _ _ _ HR).
-    + rewrite <- E, <- (r_ncall _ _ _ HR). exact Hnd.
-  - intros c rf [E|[]]. injection E as <- <-. unfold cell_ok, sref_val. sp. fold t. rewrite Hnd.
-    rewrite Hc4. destruct (tm =? rc); [reflexivity|]. now rewrite N.eqb_refl.
-  - apply (r_d_recs _ _ _ HR).
-  - intros t' r a c H Hr. apply in_app_or in H. destruct H as [H|[E|[]]].
-    + eapply (r_d_vr _ _ _ HR); eauto.
-    + injection E as <- <-. apply (Lr _ _ _) in Hr. apply Hfresh in Hr. tauto.
-  - intros c rf [E|[]]. injection E as <- <-. split.
-    + intros t' H. apply in_app_or in H. destruct H as [H|[E|[]]].
-      * apply Lv in H. apply Hfresh in H. tauto.
-      * injection E as _ E. lia.
-    + intros r a H. apply Lr in H. apply Hfresh in H. tauto.
-  - intros c p H. unfold holds in H. rewrite Hc4 in H.
-    destruct (c =? rc); [injection H as <-; unfold t; lia|].
-    destruct (c =? tm); [injection H as <-; unfold t; lia|].
-    pose proof (r_ptr_fresh _ _ _ HR c p H). lia.
-  - intros t' x H. pose proof (r_done_fresh _ _ _ HR t' x H). lia.
-  - intros t' H. apply in_app_or in H. destruct H as [H|[E|[]]].
-    + pose proof (r_alive_fresh _ _ _ HR t' H). lia.
+    + now apply (r_pending _ _ HR).
+    + rewrite <- E, <- Et. exact Hnd.
+  - intros u c H. destruct (r_fwd _ _ HR u c H) as [F1 F2]. split; [apply in_or_app; now left|exact F2].
+  - apply (r_loc_alive _ _ HR).
+  - apply (r_loc_keys _ _ HR).
+  - constructor; [|apply (r_tmp_nd _ _ HR)]. intro H. apply in_map_iff in H. destruct H as [[k u] [E H]].
+    cbn in E. subst k. pose proof (fresh_not_owned h s tm (OTmp u) HR H). unfold rc in *. lia.
+  - apply (own_inj_extend h s _ rc (OVm t) tm (OTmp t) HR).
+    + unfold rc. lia.
+    + unfold rc in *. lia.
     + lia.
-  - apply (r_rec_keys _ _ _ HR).
-  - apply (r_rec_fresh _ _ _ HR).
+    + intros k o Ho. destruct o as [t'|r|t'|t']; cbn [owns] in *; sp.
+      * apply in_app_or in Ho. destruct Ho as [Ho|[E|[]]]; [now left|]. injection E as <- <-. right. left. now split.
+      * now left.
+      * now left.
+      * destruct Ho as [E|Ho]; [|now left]. injection E as <- <-. right. right. now split.
+  - intros c p H. unfold holds in H. rewrite Hc4 in H. apply in_or_app.
+    destruct (c =? rc); [injection H as <-; right; left; now rewrite Et|].
+    destruct (c =? tm); [injection H as <-; right; left; now rewrite Et|].
+    left. now apply (r_ptr_alive _ _ HR c).
+  - intros t' x H. pose proof (r_done_fresh _ _ HR t' x H). lia.
+  - intros t' H. apply in_app_or in H. destruct H as [H|[E|[]]].
+    + pose proof (r_alive_fresh _ _ HR t' H). lia.
+    + lia.
+  - apply (r_rec_keys _ _ HR).
+  - apply (r_rec_fresh _ _ HR).
+Qed.
+
+Lemma call_begin_R lbl h s : R h s ->
+  R (fst (call_begin lbl h)) (fst (s_begin lbl s)) /\ snd (call_begin lbl h) = snd (s_begin lbl s).
+Proof.
+  intro HR. unfold call_begin, s_begin. destruct lbl.
+  - rewrite (r_ncall _ _ HR). destruct (thread_begin_R (sncall s) h s HR) as (H1 & H2 & _). now split.
+  - sp. split; [|apply (r_ncall _ _ HR)].
+    constructor; sp.
+    + apply (r_good _ _ HR).
+    + apply (r_nrec _ _ HR).
+    + now rewrite (r_ncall _ _ HR).
+    + apply (r_alive _ _ HR).
+    + apply (r_tcall _ _ HR).
+    + apply (r_recs _ _ HR).
+    + apply (r_vms _ _ HR).
+    + apply (r_locs _ _ HR).
+    + apply (r_tmps _ _ HR).
+    + apply (r_nd_alive _ _ HR).
+    + apply (r_pending _ _ HR).
+    + apply (r_fwd _ _ HR).
+    + apply (r_loc_alive _ _ HR).
+    + apply (r_loc_keys _ _ HR).
+    + apply (r_tmp_nd _ _ HR).
+    + apply (r_own _ _ HR).
+    + apply (r_ptr_alive _ _ HR).
+    + intros t x H. pose proof (r_done_fresh _ _ HR t x H). lia.
+    + intros t H. pose proof (r_alive_fresh _ _ HR t H). lia.
+    + apply (r_rec_keys _ _ HR).
+    + apply (r_rec_fresh _ _ HR).
+Qed.
+
+Lemma spawn_R parent h s : R h s ->
+  R (fst (spawn parent h)) (fst (s_spawn parent s)) /\ snd (spawn parent h) = snd (s_spawn parent s).
+Proof.
+  intro HR. unfold spawn, s_spawn, call_of, s_call_of. rewrite (r_tcall _ _ HR).
+  destruct (thread_begin_R (match lookup parent (stcall s) with Some c => c | None => parent end) h s HR) as (H1 & H2 & _).
+  now split.
+Qed.
+
+(* ---- a generic repackaging: threads and results unchanged ---------------------------------------- *)
+Lemma R_update h s h' s' :
+  R h s -> good (hc h') ->
+  vms h' = vms h -> tcall h' = tcall h -> ncall h' = ncall h ->
+  alive s' = alive s -> done s' = done s -> stcall s' = stcall s -> sncall s' = sncall s ->
+  nrec h' = snrec s' ->
+  Forall2 (rec_rel (hc h') s') (recs h') (srecs s') ->
+  (forall t rc, In (t, rc) (vms h) -> get (cells (hc h')) rc = get (cells (hc h)) rc) ->
+  Forall2 (loc_rel (hc h') s') (locs h') (slocs s') ->
+  Forall2 (tmp_rel (hc h') s') (tmps h') (stmps s') ->
+  (forall t c, In (t, c) (slocs s') -> t < c) ->
+  NoDup (map fst (locs h')) -> NoDup (map fst (tmps h')) ->
+  (forall k o o', owns h' k o -> owns h' k o' -> o = o') ->
+  (forall k p, holds (hc h') k p -> exists k', holds (hc h) k' p) ->
+  NoDup (map fst (recs h')) -> (forall rid, In rid (map fst (recs h')) -> rid < nrec h') ->
+  R h' s'.
+Proof.
+  intros HR G Ev Et En Ea Ed Es Esn Enr Fr Hv Fl Ft Hlt Nl Nt Own Hp Nk Hf.
+  constructor.
+  - exact G.
+  - exact Enr.
+  - rewrite En, Esn. apply (r_ncall _ _ HR).
+  - rewrite Ev, Ea. apply (r_alive _ _ HR).
+  - rewrite Et, Es. apply (r_tcall _ _ HR).
+  - exact Fr.
+  - rewrite Ev. intros t rc H. rewrite (Hv _ _ H). now apply (r_vms _ _ HR).
+  - exact Fl.
+  - exact Ft.
+  - rewrite Ea. apply (r_nd_alive _ _ HR).
+  - rewrite Ea, Ed. apply (r_pending _ _ HR).
+  - rewrite Ea, Ed. apply (r_fwd _ _ HR).
+  - exact Hlt.
+  - exact Nl.
+  - exact Nt.
+  - exact Own.
+  - rewrite Ea. intros c p H. destruct (Hp c p H) as [k' H']. eapply (r_ptr_alive _ _ HR); eauto.
+  - rewrite Ed, Esn. apply (r_done_fresh _ _ HR).
+  - rewrite Ea, Esn. apply (r_alive_fresh _ _ HR).
+  - exact Nk.
+  - exact Hf.
+Qed.
+
+Lemma tmp_head h s tm u rest : R h s -> tmps h = (tm, u) :: rest ->
+  exists rest', stmps s = u :: rest' /\ cell_ok (hc h) s tm (SCall u) /\ Forall2 (tmp_rel (hc h) s) rest rest' /\
+                ~ In tm (map fst rest).
+Proof.
+  intros HR E. pose proof (r_tmps _ _ HR) as F. pose proof (r_tmp_nd _ _ HR) as Nd. rewrite E in F, Nd.
+  inversion F as [|x y l sl [E1 E2] F' E3 E4]; subst. cbn [fst snd] in *.
+  exists sl. repeat split; auto. now inversion Nd.
+Qed.
+
+Lemma cells_same_done c s s' k rf : done s' = done s -> cell_ok c s k rf -> cell_ok c s' k rf.
+Proof. intros E H. unfold cell_ok, sref_val in *. now rewrite E. Qed.
+
+(* ---- `local.r = thread sub` returned ----------------------------------------------------------- *)
+Lemma spawned_R parent child h s : R h s -> R (spawned parent child h) (s_spawned parent child s).
+Proof.
+  intro HR. unfold spawned, s_spawned.
+  destruct (tmps h) as [|[tm u] rest] eqn:Et.
+  { pose proof (r_tmps _ _ HR) as F. rewrite Et in F. inversion F. exact HR. }
+  destruct (tmp_head h s tm u rest HR Et) as (rest' & Es & Hok & Fr & Hnin). rewrite Es.
+  pose proof (loc_corr h s parent HR) as Hloc.
+  pose proof (r_good _ _ HR) as G0.
+  assert (Htm_own : owns h tm (OTmp u)) by (cbn; rewrite Et; now left).
+  assert (Hne_tm : forall k o, owns h k o -> o <> OTmp u -> k <> tm).
+  { intros k o Ho Hn E. subst k. apply Hn. apply (r_own _ _ HR tm); assumption. }
+  assert (Hrest_tm : forall k t', In (k, t') rest -> k <> tm).
+  { intros k t' H E. subst k. apply Hnin. apply in_map_iff. exists (tm, t'). now split. }
+  destruct ((parent <? u) && match lookup parent (locs h) with None => true | Some _ => false end) eqn:Eg.
+  - (* the variable is created *)
+    assert (Eg' : (parent <? u) && match lookup parent (slocs s) with None => true | Some _ => false end = true).
+    { destruct (lookup parent (locs h)), (lookup parent (slocs s)); try tauto; exact Eg. }
+    rewrite Eg'. apply andb_true_iff in Eg. destruct Eg as [Elt Enl]. apply N.ltb_lt in Elt.
+    assert (Hnl : lookup parent (locs h) = None) by (destruct (lookup parent (locs h)); [discriminate|reflexivity]).
+    unfold cell_ok in Hok.
+    destruct (copy_construct_ok (hc h) tm _ G0 Hok) as (G1 & S1 & N1 & C1).
+    destruct (copy_construct (hc h) tm) as [c1 lr] eqn:Ec. cbn [fst snd] in *. subst lr.
+    destruct (destroy_ok c1 tm G1) as (G2 & C2 & N2).
+    { unfold live. rewrite C1. destruct (tm =? ncell (hc h)); congruence. }
+    assert (Hc : forall k, get (cells (destroy c1 tm)) k =
+               if k =? tm then None else if k =? ncell (hc h) then Some (sref_val s (SCall u)) else get (cells (hc h)) k).
+    { intro k. rewrite C2, get_set, C1. reflexivity. }
+    assert (Hkeep : forall k o, owns h k o -> o <> OTmp u -> get (cells (destroy c1 tm)) k = get (cells (hc h)) k).
+    { intros k o Ho Hn. rewrite Hc. destruct (N.eqb_spec k tm) as [E|_]; [exfalso; eapply Hne_tm; eauto|].
+      destruct (N.eqb_spec k (ncell (hc h))) as [E|_]; [|reflexivity].
+      pose proof (fresh_not_owned _ _ _ _ HR Ho). lia. }
+    eapply (R_update h s); [exact HR|exact G2|..]; sp; try reflexivity.
+    + apply (r_nrec _ _ HR).
+    + eapply recs_transfer; [apply (r_recs _ _ HR)|]. intros r a k rf Hk. apply cell_ok_frame; [reflexivity|].
+      apply (Hkeep k (ORec r)); [now exists a|discriminate].
+    + intros t rc H. apply (Hkeep rc (OVm t)); [exact H|discriminate].
+    + apply Forall2_app.
+      * eapply locs_transfer; [apply (r_locs _ _ HR)|]. intros t k rf Hk. apply cell_ok_frame; [reflexivity|].
+        apply (Hkeep k (OLoc t)); [exact Hk|discriminate].
+      * constructor; [|constructor]. split; [reflexivity|]. cbn [fst snd]. unfold cell_ok. rewrite Hc.
+        destruct (N.eqb_spec (ncell (hc h)) tm) as [E|_].
+        -- pose proof (fresh_not_owned _ _ _ _ HR Htm_own). lia.
+        -- now rewrite N.eqb_refl.
+    + eapply tmps_transfer; [exact Fr|]. intros k t' rf Hk. apply cell_ok_frame; [reflexivity|].
+      rewrite Hc. destruct (N.eqb_spec k tm) as [E|_]; [exfalso; eapply Hrest_tm; eauto|].
+      destruct (N.eqb_spec k (ncell (hc h))) as [E|_]; [|reflexivity].
+      assert (Ho : owns h k (OTmp t')) by (cbn; rewrite Et; now right).
+      pose proof (fresh_not_owned _ _ _ _ HR Ho). lia.
+    + intros t c H. apply in_app_or in H. destruct H as [H|[E|[]]]; [now apply (r_loc_alive _ _ HR)|].
+      injection E as <- <-. exact Elt.
+    + rewrite map_app. cbn. apply nodup_snoc; [apply (r_loc_keys _ _ HR)|]. now apply lookup_none_notin.
+    + pose proof (r_tmp_nd _ _ HR) as Nd. rewrite Et in Nd. now inversion Nd.
+    + apply (own_inj_extend h s _ (ncell (hc h)) (OLoc parent) (ncell (hc h)) (OLoc parent) HR); try lia; auto.
+      intros k o Ho. destruct o as [t'|r|t'|t']; cbn [owns] in *; sp.
+      * now left.
+      * now left.
+      * apply in_app_or in Ho. destruct Ho as [Ho|[E|[]]]; [now left|]. injection E as <- <-. right. left. now split.
+      * left. rewrite Et. now right.
+    + intros k p H. unfold holds in H. rewrite Hc in H. destruct (k =? tm); [discriminate|].
+      destruct (k =? ncell (hc h)).
+      * exists tm. unfold holds. congruence.
+      * now exists k.
+    + apply (r_rec_keys _ _ HR).
+    + apply (r_rec_fresh _ _ HR).
+  - (* not reached: the value is dropped *)
+    assert (Eg' : (parent <? u) && match lookup parent (slocs s) with None => true | Some _ => false end = false).
+    { destruct (lookup parent (locs h)), (lookup parent (slocs s)); try tauto; exact Eg. }
+    rewrite Eg'.
+    destruct (destroy_ok (hc h) tm G0) as (G2 & C2 & N2); [eapply owned_live; eauto|].
+    assert (Hkeep : forall k o, owns h k o -> o <> OTmp u -> get (cells (destroy (hc h) tm)) k = get (cells (hc h)) k).
+    { intros k o Ho Hn. rewrite C2, gso; [reflexivity|]. eapply Hne_tm; eauto. }
+    eapply (R_update h s); [exact HR|exact G2|..]; sp; try reflexivity.
+    + apply (r_nrec _ _ HR).
+    + eapply recs_transfer; [apply (r_recs _ _ HR)|]. intros r a k rf Hk. apply cell_ok_frame; [reflexivity|].
+      apply (Hkeep k (ORec r)); [now exists a|discriminate].
+    + intros t rc H. apply (Hkeep rc (OVm t)); [exact H|discriminate].
+    + eapply locs_transfer; [apply (r_locs _ _ HR)|]. intros t k rf Hk. apply cell_ok_frame; [reflexivity|].
+      apply (Hkeep k (OLoc t)); [exact Hk|discriminate].
+    + eapply tmps_transfer; [exact Fr|]. intros k t' rf Hk. apply cell_ok_frame; [reflexivity|].
+      rewrite C2, gso; [reflexivity|]. eapply Hrest_tm; eauto.
+    + apply (r_loc_alive _ _ HR).
+    + apply (r_loc_keys _ _ HR).
+    + pose proof (r_tmp_nd _ _ HR) as Nd. rewrite Et in Nd. now inversion Nd.
+    + apply (own_inj_sub h s _ HR). intros k o Ho. destruct o; cbn [owns] in *; sp; auto. rewrite Et. now right.
+    + intros k p H. unfold holds in H. rewrite C2, get_set in H. destruct (k =? tm); [discriminate|]. now exists k.
+    + apply (r_rec_keys _ _ HR).
+    + apply (r_rec_fresh _ _ HR).
 Qed.
 
 (* ---- a record is added ---------------------------------------------------------------------- *)
-Lemma R_add_rec h s xs c' a o o' tm' :
-  R h s xs -> good c' ->
-  (forall t rc, In (t, rc) (vms h) -> get (cells c') rc = get (cells (hc h)) rc) ->
-  (forall r a k, In (r, mkRec a (Some k)) (recs h) -> get (cells c') k = get (cells (hc h)) k) ->
-  (forall k p, holds c' k p -> p < ncall h) ->
+Lemma R_add_rec h s c' a o o' tmps' stmps' :
+  R h s -> good c' ->
+  Forall2 (tmp_rel (hc h) s) tmps' stmps' -> (forall x, In x tmps' -> In x (tmps h)) -> NoDup (map fst tmps') ->
+  (forall k ow, owns h k ow -> (forall t, ow = OTmp t -> In (k, t) tmps') ->
+                get (cells c') k = get (cells (hc h)) k) ->
+  (forall k p, holds c' k p -> exists k', holds (hc h) k' p) ->
   match o, o' with
   | None, None => True
-  | Some k, Some rf => ~ live (hc h) k /\ cell_ok c' s k rf
+  | Some k, Some rf => ncell (hc h) <= k /\ cell_ok c' s k rf
   | _, _ => False
   end ->
-  R (mkHeap c' (vms h) (recs h ++ [(nrec h, mkRec a o)]) (nrec h + 1) (ncall h) (ninst h) tm')
-    (mkStore (alive s) (done s) (srecs s ++ [(snrec s, mkSRec a o')]) (snrec s + 1) (sncall s)) [].
+  R (mkHeap c' (vms h) (locs h) (tcall h) (recs h ++ [(nrec h, mkRec a o)]) (nrec h + 1) (ncall h) tmps')
+    (mkStore (alive s) (done s) (slocs s) (stcall s) (srecs s ++ [(snrec s, mkSRec a o')]) (snrec s + 1)
+             (sncall s) stmps').
 Proof.
-  intros HR G Hv Hr Hp Ho.
-  destruct (tracked_live _ _ _ HR) as (Lv & Lr & _).
-  constructor; sp.
-  - exact G.
-  - now rewrite (r_nrec _ _ _ HR).
-  - apply (r_ncall _ _ _ HR).
-  - apply (r_alive _ _ _ HR).
-  - apply (r_ninst _ _ _ HR).
+  intros HR G Ft Hsub Nt Hkeep Hp Ho.
+  assert (Hk' : forall k ow, owns h k ow -> (forall t, ow <> OTmp t) -> get (cells c') k = get (cells (hc h)) k).
+  { intros k ow H Hn. apply (Hkeep k ow H). intros t E. exfalso. eapply Hn; eauto. }
+  eapply (R_update h s); [exact HR|exact G|..]; sp; try reflexivity.
+  - now rewrite (r_nrec _ _ HR).
   - apply Forall2_app.
-    + eapply recs_transfer; [apply (r_recs _ _ _ HR)|].
-      intros r a0 k rf Hk. apply cell_ok_frame; [reflexivity|]. eapply Hr; eauto.
-    + constructor; [|constructor]. split; [apply (r_nrec _ _ _ HR)|]. split; [reflexivity|].
+    + eapply recs_transfer; [apply (r_recs _ _ HR)|].
+      intros r a0 k rf Hk. apply cell_ok_frame; [reflexivity|]. apply (Hk' k (ORec r)); [now exists a0|discriminate].
+    + constructor; [|constructor]. split; [apply (r_nrec _ _ HR)|]. split; [reflexivity|].
       cbn. destruct o, o'; tauto.
-  - intros t rc H. rewrite (Hv _ _ H). now apply (r_vms _ _ _ HR).
-  - apply (r_nd_alive _ _ _ HR).
-  - apply (r_pending _ _ _ HR).
-  - intros c rf [].
-  - intros r a1 r' a2 c H1 H2. apply in_app_or in H1. apply in_app_or in H2.
-    destruct H1 as [H1|[E1|[]]], H2 as [H2|[E2|[]]].
-    + eapply (r_d_recs _ _ _ HR); eauto.
-    + injection E2 as <- <- ->. destruct o'; [|destruct Ho]. destruct Ho as [Hl _].
-      exfalso. apply Hl. eapply Lr; eauto.
-    + injection E1 as <- <- ->. destruct o'; [|destruct Ho]. destruct Ho as [Hl _].
-      exfalso. apply Hl. eapply Lr; eauto.
-    + congruence.
-  - intros t r a1 c H1 H2. apply in_app_or in H2. destruct H2 as [H2|[E2|[]]].
-    + eapply (r_d_vr _ _ _ HR); eauto.
-    + injection E2 as <- <- ->. destruct o'; [|destruct Ho]. destruct Ho as [Hl _].
-      apply Hl. eapply Lv; eauto.
-  - intros c rf [].
+  - intros t rc H. apply (Hk' rc (OVm t)); [exact H|discriminate].
+  - eapply locs_transfer; [apply (r_locs _ _ HR)|]. intros t k rf Hk. apply cell_ok_frame; [reflexivity|].
+    apply (Hk' k (OLoc t)); [exact Hk|discriminate].
+  - eapply tmps_transfer; [exact Ft|]. intros k t rf Hk. apply cell_ok_frame; [reflexivity|].
+    apply (Hkeep k (OTmp t)); [cbn; now apply Hsub|]. intros t0 E. now injection E as <-.
+  - apply (r_loc_alive _ _ HR).
+  - apply (r_loc_keys _ _ HR).
+  - exact Nt.
+  - destruct o as [kn|].
+    + destruct o' as [rf|]; [|destruct Ho]. destruct Ho as [Hl _].
+      apply (own_inj_extend h s _ kn (ORec (nrec h)) kn (ORec (nrec h)) HR); auto.
+      intros k ow H. destruct ow as [t|r|t|t]; cbn [owns] in *; sp.
+      * now left.
+      * destruct H as [a0 H]. apply in_app_or in H. destruct H as [H|[E|[]]]; [left; now exists a0|].
+        injection E as <- _ <-. right. left. now split.
+      * now left.
+      * left. now apply Hsub.
+    + apply (own_inj_sub h s _ HR). intros k ow H. destruct ow as [t|r|t|t]; cbn [owns] in *; sp; auto.
+      destruct H as [a0 H]. apply in_app_or in H. destruct H as [H|[E|[]]]; [now exists a0|discriminate].
   - exact Hp.
-  - apply (r_done_fresh _ _ _ HR).
-  - apply (r_alive_fresh _ _ _ HR).
-  - rewrite map_app. cbn. apply nodup_snoc; [apply (r_rec_keys _ _ _ HR)|].
-    intro H. apply (r_rec_fresh _ _ _ HR) in H. lia.
+  - rewrite map_app. cbn. apply nodup_snoc; [apply (r_rec_keys _ _ HR)|].
+    intro H. apply (r_rec_fresh _ _ HR) in H. lia.
   - intros rid H. rewrite map_app in H. apply in_app_or in H. destruct H as [H|[E|[]]].
-    + apply (r_rec_fresh _ _ _ HR) in H. lia.
+    + apply (r_rec_fresh _ _ HR) in H. lia.
     + cbn in E. lia.
 Qed.
 
-Lemma call_finish_nolabel_R t args h s :
-  R h s [] -> R (call_finish false t args h) (s_finish false t args s) [].
+Lemma tmps_self h s : R h s ->
+  Forall2 (tmp_rel (hc h) s) (tmps h) (stmps s) /\ (forall x, In x (tmps h) -> In x (tmps h)) /\ NoDup (map fst (tmps h)).
+Proof. intro HR. split; [apply (r_tmps _ _ HR)|]. split; [auto|apply (r_tmp_nd _ _ HR)]. Qed.
+
+Lemma call_finish_nolabel_R t args h s : R h s -> R (call_finish false t args h) (s_finish false t args s).
 Proof.
-  intro HR. unfold call_finish, s_finish.
-  apply (R_add_rec h s [] (hc h) args None None (tmp h) HR); auto.
-  - apply (r_good _ _ _ HR).
-  - apply (r_ptr_fresh _ _ _ HR).
+  intro HR. unfold call_finish, s_finish. destruct (tmps_self h s HR) as (T1 & T2 & T3).
+  apply (R_add_rec h s (hc h) args None None (tmps h) (stmps s) HR); auto.
+  - apply (r_good _ _ HR).
+  - intros k p H. now exists k.
 Qed.
 
-Lemma call_finish_R t args h s :
-  R h s [(tmp h, SCall t)] -> R (call_finish true t args h) (s_finish true t args s) [].
+Lemma call_finish_R t args h s : R h s -> R (call_finish true t args h) (s_finish true t args s).
 Proof.
   intro HR. unfold call_finish, s_finish.
-  pose proof (r_good _ _ _ HR) as G0.
-  assert (Htmp : cell_ok (hc h) s (tmp h) (SCall t)) by (apply (r_xs _ _ _ HR); now left).
-  destruct (r_d_xs _ _ _ HR (tmp h) (SCall t)) as [Dv Dr]; [now left|].
-  unfold cell_ok in Htmp. rewrite Htmp.
-  assert (Hl : live (hc h) (tmp h)) by (unfold live; congruence).
-  assert (NoSlot : sref_val s (SCall t) = VD DNil ->
-            R (mkHeap (destroy (hc h) (tmp h)) (vms h) (recs h ++ [(nrec h, mkRec args None)]) (nrec h + 1)
-                      (ncall h) (ninst h) (tmp h))
-              (mkStore (alive s) (done s) (srecs s ++ [(snrec s, mkSRec args None)]) (snrec s + 1) (sncall s)) []).
-  { intros _. destruct (destroy_ok (hc h) (tmp h) G0 Hl) as (G1 & C1 & N1).
-    apply (R_add_rec h s _ _ args None None (tmp h) HR); auto.
-    - intros t' rc H. rewrite C1, gso; [reflexivity|]. intro E. subst. eapply Dv; eauto.
-    - intros r a k H. rewrite C1, gso; [reflexivity|]. intro E. subst. eapply Dr; eauto.
-    - intros k p H. unfold holds in H. rewrite C1, get_set in H. destruct (k =? tmp h); [discriminate|].
-      now apply (r_ptr_fresh _ _ _ HR k). }
-  assert (Slot : forall v, sref_val s (SCall t) = v ->
-            R (let '(c1, sc) := move_construct (hc h) (tmp h) in
-               mkHeap (destroy c1 (tmp h)) (vms h) (recs h ++ [(nrec h, mkRec args (Some sc))]) (nrec h + 1)
-                      (ncall h) (ninst h) (tmp h))
-              (mkStore (alive s) (done s) (srecs s ++ [(snrec s, mkSRec args (Some (SCall t)))]) (snrec s + 1) (sncall s)) []).
-  { intros v Ev.
-    destruct (move_construct_ok (hc h) (tmp h) (sref_val s (SCall t)) G0 Htmp) as (G1 & S1 & N1 & C1).
-    destruct (move_construct (hc h) (tmp h)) as [c1 sc] eqn:Em. cbn [fst snd] in *. subst sc.
-    assert (Hne : tmp h <> ncell (hc h)) by (eapply fresh_ne; eauto).
-    destruct (destroy_ok c1 (tmp h) G1) as (G2 & C2 & N2).
+  destruct (tmps h) as [|[tm u] rest] eqn:Et.
+  { pose proof (r_tmps _ _ HR) as F. rewrite Et in F. inversion F as [E1 E2|]. 
+    assert (T : Forall2 (tmp_rel (hc h) s) (@nil (N * N)) (@nil N)) by constructor.
+    apply (R_add_rec h s (hc h) args None None [] [] HR); auto.
+    - apply (r_good _ _ HR).
+    - intros x [].
+    - constructor.
+    - intros k p H. now exists k. }
+  destruct (tmp_head h s tm u rest HR Et) as (rest' & Es & Hok & Fr & Hnin). rewrite Es.
+  pose proof (r_good _ _ HR) as G0.
+  assert (Htm_own : owns h tm (OTmp u)) by (cbn; rewrite Et; now left).
+  assert (Hsub : forall x, In x rest -> In x (tmps h)) by (intros x H; rewrite Et; now right).
+  assert (Nd : NoDup (map fst rest)) by (pose proof (r_tmp_nd _ _ HR) as Nd; rewrite Et in Nd; now inversion Nd).
+  assert (Hne_tm : forall k ow, owns h k ow -> (forall t0, ow = OTmp t0 -> In (k, t0) rest) -> k <> tm).
+  { intros k ow Ho Hr E. subst k. assert (E : ow = OTmp u) by (apply (r_own _ _ HR tm); assumption).
+    apply Hnin. apply in_map_iff. exists (tm, u). split; [reflexivity|]. now apply Hr. }
+  unfold cell_ok in Hok. rewrite Hok.
+  assert (NoSlot : sref_val s (SCall u) = VD DNil ->
+            R (mkHeap (destroy (hc h) tm) (vms h) (locs h) (tcall h) (recs h ++ [(nrec h, mkRec args None)]) (nrec h + 1)
+                      (ncall h) rest)
+              (mkStore (alive s) (done s) (slocs s) (stcall s) (srecs s ++ [(snrec s, mkSRec args None)]) (snrec s + 1)
+                       (sncall s) rest')).
+  { intros _. destruct (destroy_ok (hc h) tm G0) as (G1 & C1 & N1); [eapply owned_live; eauto|].
+    apply (R_add_rec h s _ args None None rest rest' HR); auto.
+    - intros k ow Ho Hr. rewrite C1, gso; [reflexivity|]. eapply Hne_tm; eauto.
+    - intros k p H. unfold holds in H. rewrite C1, get_set in H. destruct (k =? tm); [discriminate|]. now exists k. }
+  assert (Slot : R (let '(c1, sc) := move_construct (hc h) tm in
+               mkHeap (destroy c1 tm) (vms h) (locs h) (tcall h) (recs h ++ [(nrec h, mkRec args (Some sc))]) (nrec h + 1)
+                      (ncall h) rest)
+              (mkStore (alive s) (done s) (slocs s) (stcall s) (srecs s ++ [(snrec s, mkSRec args (Some (SCall u)))])
+                       (snrec s + 1) (sncall s) rest')).
+  { destruct (move_construct_ok (hc h) tm (sref_val s (SCall u)) G0 Hok) as (G1 & S1 & N1 & C1).
+    destruct (move_construct (hc h) tm) as [c1 sc] eqn:Em. cbn [fst snd] in *. subst sc.
+    assert (Hne : tm <> ncell (hc h)) by (eapply fresh_ne; eauto).
+    destruct (destroy_ok c1 tm G1) as (G2 & C2 & N2).
     { unfold live. rewrite C1, N.eqb_refl. discriminate. }
-    assert (Hc : forall k, get (cells (destroy c1 (tmp h))) k =
-               if k =? tmp h then None else if k =? ncell (hc h) then Some (sref_val s (SCall t))
+    assert (Hc : forall k, get (cells (destroy c1 tm)) k =
+               if k =? tm then None else if k =? ncell (hc h) then Some (sref_val s (SCall u))
                else get (cells (hc h)) k).
-    { intro k. rewrite C2, get_set, C1. destruct (k =? tmp h); reflexivity. }
-    assert (Hfr : forall k, live (hc h) k -> k <> ncell (hc h)).
-    { intros k Hk E. subst. apply Hk. destruct G0 as [_ [_ _ Hf]]. apply Hf. lia. }
-    destruct (tracked_live _ _ _ HR) as (Lv & Lr & _).
-    apply (R_add_rec h s _ _ args (Some (ncell (hc h))) (Some (SCall t)) (tmp h) HR); auto.
-    - intros t' rc H. rewrite Hc.
-      destruct (N.eqb_spec rc (tmp h)) as [->|_]; [exfalso; eapply Dv; eauto|].
-      destruct (N.eqb_spec rc (ncell (hc h))) as [E|_]; [|reflexivity].
-      exfalso. apply (Hfr rc); [eapply Lv; eauto|exact E].
-    - intros r a k H. rewrite Hc.
-      destruct (N.eqb_spec k (tmp h)) as [->|_]; [exfalso; eapply Dr; eauto|].
+    { intro k. rewrite C2, get_set, C1. destruct (k =? tm); reflexivity. }
+    apply (R_add_rec h s _ args (Some (ncell (hc h))) (Some (SCall u)) rest rest' HR); auto.
+    - intros k ow Ho Hr. rewrite Hc.
+      destruct (N.eqb_spec k tm) as [E|_]; [exfalso; eapply Hne_tm; eauto|].
       destruct (N.eqb_spec k (ncell (hc h))) as [E|_]; [|reflexivity].
-      exfalso. apply (Hfr k); [eapply Lr; eauto|exact E].
-    - intros k p H. unfold holds in H. rewrite Hc in H. destruct (k =? tmp h); [discriminate|].
-      destruct (k =? ncell (hc h)).
-      + apply (r_ptr_fresh _ _ _ HR (tmp h)). unfold holds. congruence.
-      + now apply (r_ptr_fresh _ _ _ HR k).
-    - split.
-      + intro Hk. apply (Hfr _ Hk). reflexivity.
-      + unfold cell_ok. rewrite Hc. destruct (N.eqb_spec (ncell (hc h)) (tmp h)); [congruence|].
-        now rewrite N.eqb_refl. }
-  unfold sref_val in *. sp.
-  destruct (lookup t (done s)) as [[[|k i]|]|] eqn:El.
+      pose proof (fresh_not_owned _ _ _ _ HR Ho). lia.
+    - intros k p H. unfold holds in H. rewrite Hc in H. destruct (k =? tm); [discriminate|].
+      destruct (k =? ncell (hc h)); [exists tm; unfold holds; congruence|now exists k].
+    - split; [lia|]. unfold cell_ok. rewrite Hc. destruct (N.eqb_spec (ncell (hc h)) tm); [congruence|].
+      now rewrite N.eqb_refl. }
+  unfold sref_val in *.
+  destruct (lookup u (done s)) as [[[[|k i]|]|q]|] eqn:El; cbn [entry_val] in *.
   - apply NoSlot. reflexivity.
-  - exact (Slot _ eq_refl).
+  - exact Slot.
   - apply NoSlot. reflexivity.
-  - exact (Slot _ eq_refl).
+  - exact Slot.
+  - exact Slot.
 Qed.
 
 (* ---- records change ------------------------------------------------------------------------- *)
@@ -702,54 +965,43 @@ Proof.
   destruct (rslot (snd x)), (sslot (snd y)); auto. unfold cell_ok, sref_val in *. now rewrite <- E.
 Qed.
 
-Lemma F2_impl {A B} (P Q : A -> B -> Prop) l sl :
-  (forall x y, P x y -> Q x y) -> Forall2 P l sl -> Forall2 Q l sl.
-Proof. intro Hi. induction 1; constructor; auto. Qed.
-
 Lemma R_change h s c' recs' srecs' :
-  R h s [] -> good c' ->
-  (forall t rc, In (t, rc) (vms h) -> get (cells c') rc = get (cells (hc h)) rc) ->
+  R h s -> good c' ->
+  (forall k ow, owns h k ow -> (forall r, ow <> ORec r) -> get (cells c') k = get (cells (hc h)) k) ->
   Forall2 (rec_rel c' s) recs' srecs' ->
-  (forall r a r' a' c, In (r, mkRec a (Some c)) recs' -> In (r', mkRec a' (Some c)) recs' -> r = r') ->
-  (forall t r a c, In (t, c) (vms h) -> In (r, mkRec a (Some c)) recs' -> False) ->
-  (forall k p, holds c' k p -> p < ncall h) ->
+  (forall k r, (exists a, In (r, mkRec a (Some k)) recs') ->
+     (exists a, In (r, mkRec a (Some k)) (recs h)) \/ ncell (hc h) <= k) ->
+  (forall r a r' a' k, In (r, mkRec a (Some k)) recs' -> In (r', mkRec a' (Some k)) recs' -> r = r') ->
+  (forall k p, holds c' k p -> exists k', holds (hc h) k' p) ->
   NoDup (map fst recs') -> (forall rid, In rid (map fst recs') -> rid < nrec h) ->
-  R (mkHeap c' (vms h) recs' (nrec h) (ncall h) (ninst h) (tmp h))
-    (mkStore (alive s) (done s) srecs' (snrec s) (sncall s)) [].
+  R (mkHeap c' (vms h) (locs h) (tcall h) recs' (nrec h) (ncall h) (tmps h))
+    (mkStore (alive s) (done s) (slocs s) (stcall s) srecs' (snrec s) (sncall s) (stmps s)).
 Proof.
-  intros HR G Hv HF Hd1 Hd2 Hp Hk Hf.
-  constructor; sp.
-  - exact G.
-  - apply (r_nrec _ _ _ HR).
-  - apply (r_ncall _ _ _ HR).
-  - apply (r_alive _ _ _ HR).
-  - apply (r_ninst _ _ _ HR).
+  intros HR G Hkeep HF Hsrc Hd Hp Hk Hf.
+  eapply (R_update h s); [exact HR|exact G|..]; sp; try reflexivity.
+  - apply (r_nrec _ _ HR).
   - eapply F2_impl; [|exact HF]. intros x y. now apply rec_rel_done.
-  - intros t rc H. rewrite (Hv _ _ H). now apply (r_vms _ _ _ HR).
-  - apply (r_nd_alive _ _ _ HR).
-  - apply (r_pending _ _ _ HR).
-  - intros c rf [].
-  - exact Hd1.
-  - exact Hd2.
-  - intros c rf [].
+  - intros t rc H. apply (Hkeep rc (OVm t)); [exact H|discriminate].
+  - eapply locs_transfer; [apply (r_locs _ _ HR)|]. intros t k rf H. apply cell_ok_frame; [reflexivity|].
+    apply (Hkeep k (OLoc t)); [exact H|discriminate].
+  - eapply tmps_transfer; [apply (r_tmps _ _ HR)|]. intros k t rf H. apply cell_ok_frame; [reflexivity|].
+    apply (Hkeep k (OTmp t)); [exact H|discriminate].
+  - apply (r_loc_alive _ _ HR).
+  - apply (r_loc_keys _ _ HR).
+  - apply (r_tmp_nd _ _ HR).
+  - intros k o o' H1 H2.
+    assert (Hcase : forall ow, owns (mkHeap c' (vms h) (locs h) (tcall h) recs' (nrec h) (ncall h) (tmps h)) k ow ->
+              (owns h k ow) \/ (ncell (hc h) <= k /\ exists r, ow = ORec r)).
+    { intros ow H. destruct ow as [t|r|t|t]; cbn [owns] in *; sp; auto.
+      destruct (Hsrc k r H) as [A|A]; [now left|right; split; [exact A|now exists r]]. }
+    destruct (Hcase o H1) as [A|[A1 [r ->]]], (Hcase o' H2) as [B|[B1 [r' ->]]].
+    + apply (r_own _ _ HR k); assumption.
+    + pose proof (fresh_not_owned _ _ _ _ HR A). lia.
+    + pose proof (fresh_not_owned _ _ _ _ HR B). lia.
+    + cbn [owns] in H1, H2. sp. destruct H1 as [a1 H1], H2 as [a2 H2]. f_equal. eapply Hd; eauto.
   - exact Hp.
-  - apply (r_done_fresh _ _ _ HR).
-  - apply (r_alive_fresh _ _ _ HR).
   - exact Hk.
   - exact Hf.
-Qed.
-
-Lemma in_amap_upd {A} r (y : A) k z l :
-  In (k, z) (amap (fun k b => if k =? r then y else b) l) ->
-  (k = r /\ z = y) \/ (k <> r /\ In (k, z) l).
-Proof.
-  intro H. apply in_amap in H. destruct H as [a [Hin E]].
-  destruct (N.eqb_spec k r) as [->|Hn]; [left; now split|right; subst; now split].
-Qed.
-
-Lemma lookup_unique {A} r (x x' : A) l : NoDup (map fst l) -> lookup r l = Some x -> In (r, x') l -> x' = x.
-Proof.
-  intros Hnd Hl Hin. apply (in_lookup _ _ _ Hnd) in Hin. congruence.
 Qed.
 
 Lemma rec_rel_inv c s r a o y : rec_rel c s (r, mkRec a o) (r, y) ->
@@ -762,89 +1014,97 @@ Proof.
   destruct o, o'; try tauto. now exists s0.
 Qed.
 
-Lemma rec_copy_R r h s : R h s [] -> R (rec_copy r h) (s_copy r s) [].
+Lemma rec_cell_live h s r a k : R h s -> In (r, mkRec a (Some k)) (recs h) -> live (hc h) k.
+Proof. intros HR H. apply (owned_live h s k (ORec r) HR). now exists a. Qed.
+
+Lemma rec_same_cell h s r a r' a' k : R h s ->
+  In (r, mkRec a (Some k)) (recs h) -> In (r', mkRec a' (Some k)) (recs h) -> r = r'.
 Proof.
-  intro HR. unfold rec_copy, s_copy.
-  destruct (lookup r (recs h)) as [[a [c|]]|] eqn:El.
-  - destruct (F2_lookup_some _ (rec_rel_key _ _) _ _ _ _ (r_recs _ _ _ HR) El) as [y [Ey Hy]].
-    rewrite Ey. apply rec_rel_inv in Hy. destruct Hy as [rf [-> Hok]].
-    pose proof (r_good _ _ _ HR) as G0.
-    destruct (copy_construct_ok (hc h) c _ G0 Hok) as (G1 & S1 & N1 & C1).
-    destruct (copy_construct (hc h) c) as [c1 c'] eqn:Ec. cbn [fst snd] in *. subst c'.
-    destruct (tracked_live _ _ _ HR) as (Lv & Lr & _).
-    assert (Hfr : forall k, live (hc h) k -> k <> ncell (hc h)).
-    { intros k Hk E. subst. apply Hk. destruct G0 as [_ [_ _ Hf]]. apply Hf. lia. }
-    apply (R_add_rec h s _ _ a (Some (ncell (hc h))) (Some rf) (tmp h) HR); auto.
-    + intros t rc H. rewrite C1. destruct (N.eqb_spec rc (ncell (hc h))) as [E|_]; [|reflexivity].
-      exfalso. apply (Hfr rc); [eapply Lv; eauto|exact E].
-    + intros r0 a0 k H. rewrite C1. destruct (N.eqb_spec k (ncell (hc h))) as [E|_]; [|reflexivity].
-      exfalso. apply (Hfr k); [eapply Lr; eauto|exact E].
-    + intros k p H. unfold holds in H. rewrite C1 in H. destruct (k =? ncell (hc h)).
-      * apply (r_ptr_fresh _ _ _ HR c). unfold holds. congruence.
-      * now apply (r_ptr_fresh _ _ _ HR k).
-    + split.
-      * intro Hk. apply (Hfr _ Hk). reflexivity.
-      * unfold cell_ok. rewrite C1, N.eqb_refl. reflexivity.
-  - destruct (F2_lookup_some _ (rec_rel_key _ _) _ _ _ _ (r_recs _ _ _ HR) El) as [y [Ey Hy]].
-    rewrite Ey. apply rec_rel_inv in Hy. subst y.
-    apply (R_add_rec h s [] (hc h) a None None (tmp h) HR); auto.
-    + apply (r_good _ _ _ HR).
-    + apply (r_ptr_fresh _ _ _ HR).
-  - rewrite (F2_lookup_none _ (rec_rel_key _ _) _ _ _ (r_recs _ _ _ HR) El). exact HR.
+  intros HR H1 H2. assert (E : ORec r = ORec r') by (apply (r_own _ _ HR k); [now exists a|now exists a']).
+  now injection E.
 Qed.
 
-Lemma rec_destroy_R r h s : R h s [] -> R (rec_destroy r h) (s_destroy r s) [].
+Lemma not_rec_cell h s k ow r a : R h s -> owns h k ow -> (forall r0, ow <> ORec r0) ->
+  In (r, mkRec a (Some k)) (recs h) -> False.
 Proof.
-  intro HR. unfold rec_destroy, s_destroy.
-  pose proof (r_good _ _ _ HR) as G0.
-  destruct (tracked_live _ _ _ HR) as (Lv & Lr & _).
+  intros HR Ho Hn H. apply (Hn r). apply (r_own _ _ HR k); [exact Ho|now exists a].
+Qed.
+
+Lemma rec_copy_R r h s : R h s -> R (rec_copy r h) (s_copy r s).
+Proof.
+  intro HR. unfold rec_copy, s_copy, with_recs, with_srecs. destruct (tmps_self h s HR) as (T1 & T2 & T3).
+  destruct (lookup r (recs h)) as [[a [c|]]|] eqn:El.
+  - destruct (F2_lookup_some _ (rec_rel_key _ _) _ _ _ _ (r_recs _ _ HR) El) as [y [Ey Hy]].
+    rewrite Ey. apply rec_rel_inv in Hy. destruct Hy as [rf [-> Hok]].
+    pose proof (r_good _ _ HR) as G0.
+    destruct (copy_construct_ok (hc h) c _ G0 Hok) as (G1 & S1 & N1 & C1).
+    destruct (copy_construct (hc h) c) as [c1 c'] eqn:Ec. cbn [fst snd] in *. subst c'.
+    apply (R_add_rec h s _ a (Some (ncell (hc h))) (Some rf) (tmps h) (stmps s) HR); auto.
+    + intros k ow Ho _. rewrite C1. destruct (N.eqb_spec k (ncell (hc h))) as [E|_]; [|reflexivity].
+      pose proof (fresh_not_owned _ _ _ _ HR Ho). lia.
+    + intros k p H. unfold holds in H. rewrite C1 in H. destruct (k =? ncell (hc h)).
+      * exists c. unfold holds. congruence.
+      * now exists k.
+    + split; [lia|]. unfold cell_ok. rewrite C1, N.eqb_refl. reflexivity.
+  - destruct (F2_lookup_some _ (rec_rel_key _ _) _ _ _ _ (r_recs _ _ HR) El) as [y [Ey Hy]].
+    rewrite Ey. apply rec_rel_inv in Hy. subst y.
+    apply (R_add_rec h s (hc h) a None None (tmps h) (stmps s) HR); auto.
+    + apply (r_good _ _ HR).
+    + intros k p H. now exists k.
+  - rewrite (F2_lookup_none _ (rec_rel_key _ _) _ _ _ (r_recs _ _ HR) El). exact HR.
+Qed.
+
+Lemma heap_eta h : mkHeap (hc h) (vms h) (locs h) (tcall h) (recs h) (nrec h) (ncall h) (tmps h) = h.
+Proof. now destruct h. Qed.
+
+Lemma rec_destroy_R r h s : R h s -> R (rec_destroy r h) (s_destroy r s).
+Proof.
+  intro HR. unfold rec_destroy, s_destroy, with_recs, with_srecs.
+  pose proof (r_good _ _ HR) as G0.
   assert (Hkeys : NoDup (map fst (del r (recs h)))).
-  { rewrite map_fst_del. apply nodup_delN. apply (r_rec_keys _ _ _ HR). }
+  { rewrite map_fst_del. apply nodup_delN. apply (r_rec_keys _ _ HR). }
   assert (Hfr : forall rid, In rid (map fst (del r (recs h))) -> rid < nrec h).
-  { intros rid H. rewrite map_fst_del in H. apply in_delN in H. apply (r_rec_fresh _ _ _ HR). tauto. }
+  { intros rid H. rewrite map_fst_del in H. apply in_delN in H. apply (r_rec_fresh _ _ HR). tauto. }
+  assert (Hsrc : forall k r0, (exists a, In (r0, mkRec a (Some k)) (del r (recs h))) ->
+                 (exists a, In (r0, mkRec a (Some k)) (recs h)) \/ ncell (hc h) <= k).
+  { intros k r0 [a H]. apply in_del in H. left. exists a. tauto. }
+  assert (Hd : forall r1 a1 r2 a2 k, In (r1, mkRec a1 (Some k)) (del r (recs h)) ->
+               In (r2, mkRec a2 (Some k)) (del r (recs h)) -> r1 = r2).
+  { intros r1 a1 r2 a2 k H1 H2. apply in_del in H1. apply in_del in H2. eapply rec_same_cell; [exact HR|apply H1|apply H2]. }
   destruct (lookup r (recs h)) as [[a [c|]]|] eqn:El.
   - assert (Hin : In (r, mkRec a (Some c)) (recs h)) by now apply lookup_in.
-    destruct (destroy_ok (hc h) c G0) as (G1 & C1 & N1); [eapply Lr; eauto|].
+    destruct (destroy_ok (hc h) c G0) as (G1 & C1 & N1); [eapply rec_cell_live; eauto|].
     apply R_change; auto.
-    + intros t rc H. rewrite C1, gso; [reflexivity|]. intro E. subst. eapply (r_d_vr _ _ _ HR); eauto.
-    + eapply recs_transfer; [apply F2_del; [apply rec_rel_key|apply (r_recs _ _ _ HR)]|].
+    + intros k ow Ho Hn. rewrite C1, gso; [reflexivity|]. intro E. subst. eapply not_rec_cell; eauto.
+    + eapply recs_transfer; [apply F2_del; [apply rec_rel_key|apply (r_recs _ _ HR)]|].
       intros r0 a0 k rf Hk. apply cell_ok_frame; [reflexivity|].
       rewrite C1, gso; [reflexivity|]. intro E. subst. apply in_del in Hk. destruct Hk as [Hk Hn].
-      apply Hn. eapply (r_d_recs _ _ _ HR); eauto.
-    + intros r1 a1 r2 a2 k H1 H2. apply in_del in H1. apply in_del in H2.
-      eapply (r_d_recs _ _ _ HR); [apply H1|apply H2].
-    + intros t r1 a1 k H1 H2. apply in_del in H2. eapply (r_d_vr _ _ _ HR); [apply H1|apply H2].
-    + intros k p H. unfold holds in H. rewrite C1, get_set in H. destruct (k =? c); [discriminate|].
-      now apply (r_ptr_fresh _ _ _ HR k).
+      apply Hn. eapply rec_same_cell; eauto.
+    + intros k p H. unfold holds in H. rewrite C1, get_set in H. destruct (k =? c); [discriminate|]. now exists k.
   - apply R_change; auto.
-    + apply F2_del; [apply rec_rel_key|apply (r_recs _ _ _ HR)].
-    + intros r1 a1 r2 a2 k H1 H2. apply in_del in H1. apply in_del in H2.
-      eapply (r_d_recs _ _ _ HR); [apply H1|apply H2].
-    + intros t r1 a1 k H1 H2. apply in_del in H2. eapply (r_d_vr _ _ _ HR); [apply H1|apply H2].
-    + apply (r_ptr_fresh _ _ _ HR).
+    + apply F2_del; [apply rec_rel_key|apply (r_recs _ _ HR)].
+    + intros k p H. now exists k.
   - assert (E : del r (srecs s) = srecs s).
-    { apply del_notin. rewrite <- (F2_keys _ _ _ (rec_rel_key _ _) (r_recs _ _ _ HR)).
+    { apply del_notin. rewrite <- (F2_keys _ _ _ (rec_rel_key _ _) (r_recs _ _ HR)).
       now apply lookup_none_notin. }
     rewrite E, store_eta. exact HR.
 Qed.
 
-Lemma rec_reserve_R r h s : R h s [] -> R (rec_reserve r h) s [].
+Lemma rec_reserve_R r h s : R h s -> R (rec_reserve r h) s.
 Proof.
-  intro HR. unfold rec_reserve.
+  intro HR. unfold rec_reserve, with_recs.
   destruct (lookup r (recs h)) as [[a [c|]]|] eqn:El; try exact HR.
-  destruct (F2_lookup_some _ (rec_rel_key _ _) _ _ _ _ (r_recs _ _ _ HR) El) as [y [Ey Hy]].
+  destruct (F2_lookup_some _ (rec_rel_key _ _) _ _ _ _ (r_recs _ _ HR) El) as [y [Ey Hy]].
   apply rec_rel_inv in Hy. destruct Hy as [rf [-> Hok]].
-  pose proof (r_good _ _ _ HR) as G0.
-  pose proof (r_rec_keys _ _ _ HR) as Hkeys.
+  pose proof (r_good _ _ HR) as G0.
+  pose proof (r_rec_keys _ _ HR) as Hkeys.
   assert (Hin : In (r, mkRec a (Some c)) (recs h)) by now apply lookup_in.
   destruct (copy_construct_ok (hc h) c _ G0 Hok) as (G1 & S1 & N1 & C1).
   destruct (copy_construct (hc h) c) as [c1 c'] eqn:Ec. cbn [fst snd] in *. subst c'.
-  destruct (tracked_live _ _ _ HR) as (Lv & Lr & _).
-  assert (Hfr : forall k, live (hc h) k -> k <> ncell (hc h)).
-  { intros k Hk E. subst. apply Hk. destruct G0 as [_ [_ _ Hf]]. apply Hf. lia. }
-  assert (Hcn : c <> ncell (hc h)) by (apply Hfr; eapply Lr; eauto).
+  assert (Hcn : c <> ncell (hc h)).
+  { pose proof (fresh_not_owned h s c (ORec r) HR). intro E. assert (c < ncell (hc h)) by (apply H; now exists a). lia. }
   destruct (destroy_ok c1 c G1) as (G2 & C2 & N2).
-  { unfold live. rewrite C1. destruct (N.eqb_spec c (ncell (hc h))); [contradiction|]. apply (Lr _ _ _ Hin). }
+  { unfold live. rewrite C1. destruct (N.eqb_spec c (ncell (hc h))); [contradiction|]. eapply rec_cell_live; eauto. }
   assert (Hc : forall k, get (cells (destroy c1 c)) k =
              if k =? c then None else if k =? ncell (hc h) then Some (sref_val s rf) else get (cells (hc h)) k).
   { intro k. rewrite C2, get_set, C1. reflexivity. }
@@ -852,16 +1112,16 @@ Proof.
   rewrite (upd_amap _ _ _ Hkeys).
   rewrite <- (amap_id (srecs s)).
   apply R_change; auto.
-  - intros t rc H. rewrite Hc.
-    destruct (N.eqb_spec rc c) as [->|_]; [exfalso; eapply (r_d_vr _ _ _ HR); eauto|].
-    destruct (N.eqb_spec rc (ncell (hc h))) as [E|_]; [|reflexivity].
-    exfalso. apply (Hfr rc); [eapply Lv; eauto|exact E].
-  - eapply F2_amap; [apply (r_recs _ _ _ HR)|].
+  - intros k ow Ho Hn. rewrite Hc.
+    destruct (N.eqb_spec k c) as [->|_]; [exfalso; eapply not_rec_cell; eauto|].
+    destruct (N.eqb_spec k (ncell (hc h))) as [E|_]; [|reflexivity].
+    pose proof (fresh_not_owned _ _ _ _ HR Ho). lia.
+  - eapply F2_amap; [apply (r_recs _ _ HR)|].
     intros [k x] [k' y] Hx Hy Hxy. pose proof (rec_rel_key _ _ _ _ Hxy) as Ek. cbn in Ek. subst k'. cbn [fst snd].
     destruct (N.eqb_spec k r) as [->|Hn].
     + assert (x = mkRec a (Some c)) by (eapply lookup_unique; eauto). subst x.
       assert (Hy' : lookup r (srecs s) = Some y).
-      { apply in_lookup; [|exact Hy]. rewrite <- (F2_keys _ _ _ (rec_rel_key _ _) (r_recs _ _ _ HR)). exact Hkeys. }
+      { apply in_lookup; [|exact Hy]. rewrite <- (F2_keys _ _ _ (rec_rel_key _ _) (r_recs _ _ HR)). exact Hkeys. }
       assert (y = mkSRec a (Some rf)) by congruence. subst y.
       repeat split; cbn. unfold cell_ok. rewrite Hc.
       destruct (N.eqb_spec (ncell (hc h)) c); [congruence|]. now rewrite N.eqb_refl.
@@ -869,27 +1129,27 @@ Proof.
         (split; [reflexivity|]); (split; [exact H2|]); cbn [fst snd rargs rslot sargs sslot]; auto.
       destruct (sslot y) as [rfy|]; [|exact H3].
       eapply cell_ok_frame; [reflexivity| |exact H3]. rewrite Hc.
-      destruct (N.eqb_spec kx c) as [->|_]; [exfalso; apply Hn; eapply (r_d_recs _ _ _ HR); eauto|].
+      destruct (N.eqb_spec kx c) as [->|_]; [exfalso; apply Hn; eapply rec_same_cell; eauto|].
       destruct (N.eqb_spec kx (ncell (hc h))) as [E|_]; [|reflexivity].
-      exfalso. apply (Hfr kx); [eapply Lr; eauto|exact E].
+      pose proof (fresh_not_owned h s kx (ORec k) HR). assert (kx < ncell (hc h)) by (apply H; now exists ax). lia.
+  - intros k r0 [a0 H]. apply in_amap_upd in H. destruct H as [[-> E]|[Hn H]].
+    + injection E as _ ->. right. lia.
+    + left. now exists a0.
   - intros r1 a1 r2 a2 k H1 H2. apply in_amap_upd in H1. apply in_amap_upd in H2.
     destruct H1 as [[-> E1]|[N1' H1]], H2 as [[-> E2]|[N2' H2]].
     + reflexivity.
-    + injection E1 as _ ->. exfalso. apply (Hfr _ (Lr _ _ _ H2)). reflexivity.
-    + injection E2 as _ ->. exfalso. apply (Hfr _ (Lr _ _ _ H1)). reflexivity.
-    + eapply (r_d_recs _ _ _ HR); eauto.
-  - intros t r1 a1 k H1 H2. apply in_amap_upd in H2. destruct H2 as [[-> E2]|[N2' H2]].
-    + injection E2 as _ ->. apply (Hfr _ (Lv _ _ H1)). reflexivity.
-    + eapply (r_d_vr _ _ _ HR); eauto.
+    + injection E1 as _ ->. exfalso. pose proof (fresh_not_owned h s (ncell (hc h)) (ORec r2) HR).
+      assert (ncell (hc h) < ncell (hc h)) by (apply H; now exists a2). lia.
+    + injection E2 as _ ->. exfalso. pose proof (fresh_not_owned h s (ncell (hc h)) (ORec r1) HR).
+      assert (ncell (hc h) < ncell (hc h)) by (apply H; now exists a1). lia.
+    + eapply rec_same_cell; eauto.
   - intros k p H. unfold holds in H. rewrite Hc in H. destruct (k =? c); [discriminate|].
-    destruct (k =? ncell (hc h)).
-    + apply (r_ptr_fresh _ _ _ HR c). unfold holds. congruence.
-    + now apply (r_ptr_fresh _ _ _ HR k).
+    destruct (k =? ncell (hc h)); [exists c; unfold holds; congruence|now exists k].
   - rewrite map_fst_amap. exact Hkeys.
-  - rewrite map_fst_amap. apply (r_rec_fresh _ _ _ HR).
+  - rewrite map_fst_amap. apply (r_rec_fresh _ _ HR).
 Qed.
 
-Lemma slot_corr r h s : R h s [] ->
+Lemma slot_corr r h s : R h s ->
   match slot_of r h, sslot_of r s with
   | None, None => True
   | Some k, Some rf =>
@@ -900,19 +1160,23 @@ Lemma slot_corr r h s : R h s [] ->
 Proof.
   intro HR. unfold slot_of, sslot_of.
   destruct (lookup r (recs h)) as [[a [k|]]|] eqn:El.
-  - destruct (F2_lookup_some _ (rec_rel_key _ _) _ _ _ _ (r_recs _ _ _ HR) El) as [y [Ey Hy]].
+  - destruct (F2_lookup_some _ (rec_rel_key _ _) _ _ _ _ (r_recs _ _ HR) El) as [y [Ey Hy]].
     apply rec_rel_inv in Hy. destruct Hy as [rf [-> Hok]]. rewrite Ey. cbn. now exists a.
-  - destruct (F2_lookup_some _ (rec_rel_key _ _) _ _ _ _ (r_recs _ _ _ HR) El) as [y [Ey Hy]].
+  - destruct (F2_lookup_some _ (rec_rel_key _ _) _ _ _ _ (r_recs _ _ HR) El) as [y [Ey Hy]].
     apply rec_rel_inv in Hy. subst y. rewrite Ey. exact I.
-  - rewrite (F2_lookup_none _ (rec_rel_key _ _) _ _ _ (r_recs _ _ _ HR) El). exact I.
+  - rewrite (F2_lookup_none _ (rec_rel_key _ _) _ _ _ (r_recs _ _ HR) El). exact I.
 Qed.
 
-Lemma skeys h s xs : R h s xs -> NoDup (map fst (srecs s)).
+Lemma skeys h s : R h s -> NoDup (map fst (srecs s)).
 Proof.
-  intro HR. rewrite <- (F2_keys _ _ _ (rec_rel_key _ _) (r_recs _ _ _ HR)). apply (r_rec_keys _ _ _ HR).
+  intro HR. rewrite <- (F2_keys _ _ _ (rec_rel_key _ _) (r_recs _ _ HR)). apply (r_rec_keys _ _ HR).
 Qed.
 
-Lemma rec_assign_R r1 r2 h s : R h s [] -> R (rec_assign r1 r2 h) (s_assign r1 r2 s) [].
+Lemma recs_self_src h : forall k r0, (exists a, In (r0, mkRec a (Some k)) (amap (fun _ b => b) (recs h))) ->
+  (exists a, In (r0, mkRec a (Some k)) (recs h)) \/ ncell (hc h) <= k.
+Proof. intros k r0 H. rewrite amap_id in H. now left. Qed.
+
+Lemma rec_assign_R r1 r2 h s : R h s -> R (rec_assign r1 r2 h) (s_assign r1 r2 s).
 Proof.
   intro HR. unfold rec_assign, s_assign.
   destruct (N.eqb_spec r1 r2) as [E|Hne]; [exact HR|].
@@ -920,19 +1184,18 @@ Proof.
   destruct (slot_of r1 h) as [ka|], (sslot_of r1 s) as [rfa|]; try tauto; try exact HR;
     destruct (slot_of r2 h) as [kb|], (sslot_of r2 s) as [rfb|]; try tauto; try exact HR.
   destruct H1 as (a1 & L1 & S1 & O1). destruct H2 as (a2 & L2 & S2 & O2).
-  pose proof (r_good _ _ _ HR) as G0.
-  pose proof (r_rec_keys _ _ _ HR) as Hkeys.
+  pose proof (r_good _ _ HR) as G0.
+  pose proof (r_rec_keys _ _ HR) as Hkeys.
   assert (I1 : In (r1, mkRec a1 (Some ka)) (recs h)) by now apply lookup_in.
   assert (I2 : In (r2, mkRec a2 (Some kb)) (recs h)) by now apply lookup_in.
-  assert (Hab : ka <> kb) by (intro E; subst; apply Hne; eapply (r_d_recs _ _ _ HR); eauto).
-  destruct (tracked_live _ _ _ HR) as (Lv & Lr & _).
-  destruct (copy_assign_ok (hc h) ka kb _ G0 Hab (Lr _ _ _ I1) O2) as (G1 & C1 & N1).
-  unfold with_hc, set_slot. rewrite S1. cbn [sargs].
-  rewrite (upd_amap _ _ _ (skeys _ _ _ HR)).
+  assert (Hab : ka <> kb) by (intro E; subst; apply Hne; eapply rec_same_cell; eauto).
+  destruct (copy_assign_ok (hc h) ka kb _ G0 Hab (rec_cell_live _ _ _ _ _ HR I1) O2) as (G1 & C1 & N1).
+  unfold with_hc, with_srecs, set_slot. rewrite S1. cbn [sargs].
+  rewrite (upd_amap _ _ _ (skeys _ _ HR)).
   rewrite <- (amap_id (recs h)).
   apply R_change; auto.
-  - intros t rc H. rewrite C1, gso; [reflexivity|]. intro E. subst. eapply (r_d_vr _ _ _ HR); eauto.
-  - eapply F2_amap; [apply (r_recs _ _ _ HR)|].
+  - intros k ow Ho Hn. rewrite C1, gso; [reflexivity|]. intro E. subst. eapply not_rec_cell; eauto.
+  - eapply F2_amap; [apply (r_recs _ _ HR)|].
     intros [k x] [k' y] Hx Hy Hxy. pose proof (rec_rel_key _ _ _ _ Hxy) as Ek. cbn in Ek. subst k'. cbn [fst snd].
     destruct (N.eqb_spec k r1) as [->|Hn].
     + assert (x = mkRec a1 (Some ka)) by (eapply lookup_unique; eauto). subst x.
@@ -941,28 +1204,17 @@ Proof.
         (split; [reflexivity|]); (split; [exact E2|]); cbn [fst snd rargs rslot sargs sslot]; auto.
       destruct (sslot y) as [rfy|]; [|exact E3].
       eapply cell_ok_frame; [reflexivity| |exact E3]. rewrite C1, gso; [reflexivity|].
-      intro E. subst. apply Hn. eapply (r_d_recs _ _ _ HR); eauto.
-  - rewrite amap_id. apply (r_d_recs _ _ _ HR).
-  - rewrite amap_id. apply (r_d_vr _ _ _ HR).
+      intro E. subst. apply Hn. eapply rec_same_cell; eauto.
+  - apply recs_self_src.
+  - rewrite amap_id. intros; eapply rec_same_cell; eauto.
   - intros k p H. unfold holds in H. rewrite C1, get_set in H. destruct (k =? ka).
-    + apply (r_ptr_fresh _ _ _ HR kb). unfold holds. congruence.
-    + now apply (r_ptr_fresh _ _ _ HR k).
+    + exists kb. unfold holds. unfold cell_ok in O2. congruence.
+    + now exists k.
   - rewrite amap_id. exact Hkeys.
-  - rewrite amap_id. apply (r_rec_fresh _ _ _ HR).
+  - rewrite amap_id. apply (r_rec_fresh _ _ HR).
 Qed.
 
-Lemma lookup_upd_other {A} r r' (y : A) l : r <> r' -> lookup r (upd r' y l) = lookup r l.
-Proof.
-  intro Hn. induction l as [|[k a] l IH]; cbn; [reflexivity|].
-  destruct (N.eqb_spec k r') as [->|Hk]; cbn.
-  - destruct (N.eqb_spec r' r); [congruence|reflexivity].
-  - destruct (k =? r); [reflexivity|exact IH].
-Qed.
-
-Lemma amap_amap {A} (f g : N -> A -> A) l : amap g (amap f l) = amap (fun k b => g k (f k b)) l.
-Proof. unfold amap. rewrite map_map. reflexivity. Qed.
-
-Lemma rec_massign_R r1 r2 h s : R h s [] -> R (rec_massign r1 r2 h) (s_massign r1 r2 s) [].
+Lemma rec_massign_R r1 r2 h s : R h s -> R (rec_massign r1 r2 h) (s_massign r1 r2 s).
 Proof.
   intro HR. unfold rec_massign, s_massign.
   destruct (N.eqb_spec r1 r2) as [E|Hne]; [exact HR|].
@@ -970,15 +1222,14 @@ Proof.
   destruct (slot_of r1 h) as [ka|], (sslot_of r1 s) as [rfa|]; try tauto; try exact HR;
     destruct (slot_of r2 h) as [kb|], (sslot_of r2 s) as [rfb|]; try tauto; try exact HR.
   destruct H1 as (a1 & L1 & S1 & O1). destruct H2 as (a2 & L2 & S2 & O2).
-  pose proof (r_good _ _ _ HR) as G0.
-  pose proof (r_rec_keys _ _ _ HR) as Hkeys.
-  pose proof (skeys _ _ _ HR) as Hsk.
+  pose proof (r_good _ _ HR) as G0.
+  pose proof (r_rec_keys _ _ HR) as Hkeys.
+  pose proof (skeys _ _ HR) as Hsk.
   assert (I1 : In (r1, mkRec a1 (Some ka)) (recs h)) by now apply lookup_in.
   assert (I2 : In (r2, mkRec a2 (Some kb)) (recs h)) by now apply lookup_in.
-  assert (Hab : ka <> kb) by (intro E; subst; apply Hne; eapply (r_d_recs _ _ _ HR); eauto).
-  destruct (tracked_live _ _ _ HR) as (Lv & Lr & _).
-  destruct (move_assign_ok (hc h) ka kb _ G0 Hab (Lr _ _ _ I1) O2) as (G1 & C1 & N1).
-  unfold with_hc, set_slot. rewrite S1. cbn [sargs].
+  assert (Hab : ka <> kb) by (intro E; subst; apply Hne; eapply rec_same_cell; eauto).
+  destruct (move_assign_ok (hc h) ka kb _ G0 Hab (rec_cell_live _ _ _ _ _ HR I1) O2) as (G1 & C1 & N1).
+  unfold with_hc, with_srecs, set_slot. rewrite S1. cbn [sargs].
   rewrite lookup_upd_other by congruence. rewrite S2. cbn [sargs].
   rewrite (upd_amap r1 _ _ Hsk).
   rewrite upd_amap by (rewrite map_fst_amap; exact Hsk).
@@ -988,10 +1239,10 @@ Proof.
              if k =? kb then Some (VD DNil) else if k =? ka then Some (sref_val s rfb) else get (cells (hc h)) k).
   { intro k. rewrite C1, !get_set. reflexivity. }
   apply R_change; auto.
-  - intros t rc H. rewrite Hc.
-    destruct (N.eqb_spec rc kb) as [->|_]; [exfalso; eapply (r_d_vr _ _ _ HR); eauto|].
-    destruct (N.eqb_spec rc ka) as [->|_]; [exfalso; eapply (r_d_vr _ _ _ HR); eauto|reflexivity].
-  - eapply F2_amap; [apply (r_recs _ _ _ HR)|].
+  - intros k ow Ho Hn. rewrite Hc.
+    destruct (N.eqb_spec k kb) as [->|_]; [exfalso; eapply not_rec_cell; eauto|].
+    destruct (N.eqb_spec k ka) as [->|_]; [exfalso; eapply not_rec_cell; eauto|reflexivity].
+  - eapply F2_amap; [apply (r_recs _ _ HR)|].
     intros [k x] [k' y] Hx Hy Hxy. pose proof (rec_rel_key _ _ _ _ Hxy) as Ek. cbn in Ek. subst k'. cbn [fst snd].
     destruct (N.eqb_spec k r2) as [->|Hn2].
     + assert (x = mkRec a2 (Some kb)) by (eapply lookup_unique; eauto). subst x.
@@ -1004,113 +1255,83 @@ Proof.
           (split; [reflexivity|]); (split; [exact E2|]); cbn [fst snd rargs rslot sargs sslot]; auto.
         destruct (sslot y) as [rfy|]; [|exact E3].
         eapply cell_ok_frame; [reflexivity| |exact E3]. rewrite Hc.
-        destruct (N.eqb_spec kx kb) as [->|_]; [exfalso; apply Hn2; eapply (r_d_recs _ _ _ HR); eauto|].
-        destruct (N.eqb_spec kx ka) as [->|_]; [exfalso; apply Hn1; eapply (r_d_recs _ _ _ HR); eauto|reflexivity].
-  - rewrite amap_id. apply (r_d_recs _ _ _ HR).
-  - rewrite amap_id. apply (r_d_vr _ _ _ HR).
+        destruct (N.eqb_spec kx kb) as [->|_]; [exfalso; apply Hn2; eapply rec_same_cell; eauto|].
+        destruct (N.eqb_spec kx ka) as [->|_]; [exfalso; apply Hn1; eapply rec_same_cell; eauto|reflexivity].
+  - apply recs_self_src.
+  - rewrite amap_id. intros; eapply rec_same_cell; eauto.
   - intros k p H. unfold holds in H. rewrite Hc in H. destruct (k =? kb); [discriminate|]. destruct (k =? ka).
-    + apply (r_ptr_fresh _ _ _ HR kb). unfold holds. congruence.
-    + now apply (r_ptr_fresh _ _ _ HR k).
+    + exists kb. unfold holds. unfold cell_ok in O2. congruence.
+    + now exists k.
   - rewrite amap_id. exact Hkeys.
-  - rewrite amap_id. apply (r_rec_fresh _ _ _ HR).
+  - rewrite amap_id. apply (r_rec_fresh _ _ HR).
 Qed.
 
 (* ---- Reset ----------------------------------------------------------------------------------- *)
-Lemma reset_cells l : forall c,
-  good c -> NoDup (map snd l) ->
-  (forall t rc, In (t, rc) l -> get (cells c) rc = Some (VPtr t)) ->
-  let c' := fold_left (fun c (x : N * N) => destroy c (snd x)) l c in
-  good c' /\ forall k, get (cells c') k = if existsb (N.eqb k) (map snd l) then None else get (cells c) k.
+Lemma kill_all_R l : forall h s, R h s ->
+  R (fold_left (fun h t => vm_kill t h) l h) (fold_left (fun s t => s_kill t s) l s) /\
+  tmps (fold_left (fun h t => vm_kill t h) l h) = tmps h.
 Proof.
-  induction l as [|[t rc] l IH]; intros c G Hnd Hv; cbn [fold_left map existsb snd].
-  - split; [exact G|reflexivity].
-  - inversion Hnd as [|x l' Hn Hnd']; subst.
-    destruct (destroy_ok c rc G) as (G1 & C1 & N1).
-    { unfold live. rewrite (Hv t rc); [discriminate|now left]. }
-    destruct (IH (destroy c rc) G1 Hnd') as (G2 & C2).
-    { intros t' rc' H. rewrite C1, gso; [apply Hv; now right|].
-      intro E. subst. apply Hn. apply in_map_iff. exists (t', rc). now split. }
-    split; [exact G2|]. intro k. rewrite C2, C1, get_set.
-    destruct (N.eqb_spec k rc) as [->|Hk]; cbn; [|reflexivity].
-    destruct (existsb (N.eqb rc) (map snd l)); reflexivity.
+  induction l as [|t l IH]; intros h s HR; cbn [fold_left]; [now split|].
+  destruct (vm_kill_R t h s HR) as [H1 H2]. destruct (IH _ _ H1) as [H3 H4]. split; [exact H3|congruence].
 Qed.
 
-Lemma heap_reset_R h s : R h s [] -> R (heap_reset h) (s_reset s) [].
+Lemma heap_reset_R h s : R h s -> R (heap_reset h) (s_reset s) /\ tmps (heap_reset h) = tmps h.
 Proof.
-  intro HR. unfold heap_reset, s_reset.
-  assert (Hnd : NoDup (map snd (vms h))).
-  { pose proof (vms_nodup_fst _ _ _ HR) as Hf.
-    assert (Hinj : forall t t' rc, In (t, rc) (vms h) -> In (t', rc) (vms h) -> t = t')
-      by (intros; eapply vms_same_cell; eauto).
-    revert Hf Hinj. generalize (vms h). induction l as [|[t rc] l IH]; cbn; intros Hf Hinj; [constructor|].
-    inversion Hf as [|x l' Hn Hf']; subst. constructor.
-    - intro H. apply in_map_iff in H. destruct H as [[t' rc'] [E H]]. cbn in E. subst rc'.
-      apply Hn. apply in_map_iff. exists (t', rc). split; [|exact H]. cbn.
-      symmetry. apply (Hinj t t' rc); [now left|now right].
-    - apply IH; [exact Hf'|]. intros t1 t2 rc0 H1 H2. apply (Hinj t1 t2 rc0); now right. }
-  destruct (reset_cells (vms h) (hc h) (r_good _ _ _ HR) Hnd (r_vms _ _ _ HR)) as (G1 & C1).
-  assert (Hex : forall k, existsb (N.eqb k) (map snd (vms h)) = true <-> exists t, In (t, k) (vms h)).
-  { intro k. rewrite existsb_eqb_in, in_map_iff. split.
-    - intros [[t rc] [E H]]. cbn in E. subst. now exists t.
-    - intros [t H]. exists (t, k). now split. }
-  constructor; sp.
-  - exact G1.
-  - apply (r_nrec _ _ _ HR).
-  - apply (r_ncall _ _ _ HR).
-  - reflexivity.
-  - reflexivity.
-  - eapply recs_transfer; [apply (r_recs _ _ _ HR)|].
-    intros r a k rf Hk. apply cell_ok_frame; [reflexivity|]. rewrite C1.
-    destruct (existsb (N.eqb k) (map snd (vms h))) eqn:E; [|reflexivity].
-    apply Hex in E. destruct E as [t Ht]. exfalso. eapply (r_d_vr _ _ _ HR); eauto.
-  - intros t rc [].
-  - constructor.
-  - intros t [].
-  - intros c rf [].
-  - apply (r_d_recs _ _ _ HR).
-  - intros t r a c [].
-  - intros c rf [].
-  - intros k p H. unfold holds in H. rewrite C1 in H.
-    destruct (existsb (N.eqb k) (map snd (vms h))); [discriminate|]. now apply (r_ptr_fresh _ _ _ HR k).
-  - apply (r_done_fresh _ _ _ HR).
-  - intros t [].
-  - apply (r_rec_keys _ _ _ HR).
-  - apply (r_rec_fresh _ _ _ HR).
+  intro HR. unfold heap_reset, s_reset. rewrite (fold_map_fst vm_kill). rewrite (r_alive _ _ HR).
+  now apply kill_all_R.
 Qed.
 
 (* ---- what the host sees ---------------------------------------------------------------------- *)
-Lemma obs_eq h s : R h s [] -> heap_obs h = s_obs s.
+Lemma obs_eq h s : R h s -> heap_obs h = s_obs s.
 Proof.
   intro HR. unfold heap_obs, s_obs. f_equal; [f_equal|].
-  - generalize (r_recs _ _ _ HR). generalize (recs h) (srecs s).
+  - generalize (r_recs _ _ HR). generalize (recs h) (srecs s).
     induction 1 as [|[k x] [k' y] l sl Hp Hf IH]; cbn [map]; [reflexivity|].
     f_equal; [|exact IH]. destruct Hp as (E1 & E2 & E3). cbn [fst snd] in *. subst k'. f_equal.
     unfold rec_toks, srec_toks. rewrite E2. f_equal.
     destruct (rslot x) as [c|], (sslot y) as [rf|]; try tauto.
     unfold cell_ok in E3. unfold cell_tok. rewrite E3. f_equal.
     unfold sref_val, sref_tok. destruct rf as [t|]; [|reflexivity].
-    destruct (lookup t (done s)) as [[d|]|]; reflexivity.
-  - rewrite (r_ninst _ _ _ HR), <- (r_alive _ _ _ HR). now rewrite map_length.
-  - apply (r_good _ _ _ HR).
+    destruct (lookup t (done s)) as [[[d|]|q]|]; reflexivity.
+  - now rewrite (r_alive _ _ HR), (r_tcall _ _ HR).
+  - apply (r_good _ _ HR).
 Qed.
 
-Lemma alive_eq t h s xs : R h s xs -> thread_alive t h = s_alive t s.
+Lemma alive_eq t h s : R h s -> thread_alive t h = s_alive t s.
 Proof.
   intro HR. unfold thread_alive, s_alive.
   destruct (lookup t (vms h)) as [rc|] eqn:El.
-  - symmetry. apply (alive_iff _ _ _ t HR). exists rc. now apply lookup_in.
+  - symmetry. apply (alive_iff _ _ t HR). exists rc. now apply lookup_in.
   - destruct (memN t (alive s)) eqn:E; [|reflexivity].
-    apply (alive_iff _ _ _ t HR) in E. destruct E as [rc H].
-    apply (vms_lookup_in _ _ _ t rc HR) in H. congruence.
+    apply (alive_iff _ _ t HR) in E. destruct E as [rc H].
+    apply (vms_lookup_in _ _ t rc HR) in H. congruence.
 Qed.
 
-Lemma R_init : R heap_init store_init [].
+Lemma R_init : R heap_init store_init.
 Proof.
-  constructor; cbn; try constructor; try (intros; contradiction); try reflexivity.
-  - constructor; cbn.
+  constructor; cbn.
+  - split; [reflexivity|]. constructor; cbn.
     + intros p l H. rewrite get_empty in H. discriminate.
     + intros c p _ H. unfold holds in H. cbn in H. rewrite get_empty in H. discriminate.
     + intros. apply get_empty.
+  - reflexivity.
+  - reflexivity.
+  - reflexivity.
+  - reflexivity.
+  - constructor.
+  - intros t rc [].
+  - constructor.
+  - constructor.
+  - constructor.
+  - intros t [].
+  - intros x c H. discriminate.
+  - intros t c [].
+  - constructor.
+  - constructor.
+  - intros k o o' H. destruct o; cbn in H; try contradiction. destruct H as [a []].
   - intros c p H. unfold holds in H. cbn in H. rewrite get_empty in H. discriminate.
   - intros t x H. discriminate.
+  - intros t [].
+  - constructor.
+  - intros rid [].
 Qed.
